@@ -1,299 +1,1448 @@
-(* Proofs/Crash.v — lemmas about Model/Fs.v, Model/Status.v, Model/Crash.v (property C04). *)
+(* Proofs/Crash.v — property C04 for every crash point of the daemon outside the truncate->write
+   windows: invariant of the interleaved histories of daemon and producer, analysis of the cut
+   operation, recovery of an intact record, the producer's run to its end, and repeated
+   restart cycles. *)
 From Coq Require Import ZArith Lia ZifyN ZifyNat ZifyBool.
-From Receptor Require Import Model.Crash.
+From Receptor Require Import Model.Crash Proofs.Status.
 Open Scope N_scope.
 
-(* ====================================================================================== *)
-(* A. the general file system, and the unit's record as a view of it                      *)
-(* ====================================================================================== *)
+(* ---------- what the producer has appended ---------- *)
+Definition appended (op : list mstep) : bytes :=
+  match op with
+  | [MOp (UAppend FStdout b)] => b
+  | _ => []
+  end.
+Definition stdout_of_ops (ops : list (list mstep)) : bytes := flat_map appended ops.
 
-Lemma beq_path_refl p : beq_path p p = true.
-Proof. induction p as [|x p IH]; simpl; [reflexivity|]. now rewrite N.eqb_refl. Qed.
+Lemma stdout_of_ops_app a b : stdout_of_ops (a ++ b) = stdout_of_ops a ++ stdout_of_ops b.
+Proof. apply flat_map_app. Qed.
 
-Lemma beq_path_eq p q : beq_path p q = true <-> p = q.
+Lemma stdout_of_ticks acc chunks rem : stdout_of_ops (ticks acc chunks rem) = concat chunks.
 Proof.
-  revert q; induction p as [|x p IH]; intros [|y q]; simpl; split; intro H;
-    try reflexivity; try discriminate.
-  - apply andb_true_iff in H as [H1 H2]. apply N.eqb_eq in H1. apply IH in H2. now subst.
-  - inversion H; subst. rewrite N.eqb_refl. now apply IH.
+  revert acc; induction chunks as [|c r IH]; intro acc; [reflexivity|].
+  simpl. now rewrite IH.
 Qed.
 
-Lemma fs_get_set_same fs p n : fs_get (fs_set fs p n) p = Some n.
+(* shapes of the producer's operations *)
+Inductive rshape (sc : scenario) : list mstep -> Prop :=
+| RS_first : rshape sc (upd_op (UBasic S_PENDING (SzConst 0)))
+| RS_create : rshape sc (fs_op (UOpenCreate FStdout))
+| RS_append c : rshape sc (fs_op (UAppend FStdout c))
+| RS_tick sz : rshape sc (upd_op (UBasic S_RUNNING sz)).
+
+Lemma ticks_shape sc acc chunks rem op : In op (ticks acc chunks rem) -> rshape sc op.
 Proof.
-  induction fs as [|[q m] r IH]; simpl.
-  - now rewrite beq_path_refl.
-  - destruct (beq_path q p) eqn:E; simpl.
-    + now rewrite E.
-    + now rewrite E.
+  revert acc; induction chunks as [|c r IH]; intros acc H; [contradiction|].
+  simpl in H. destruct H as [<-|[<-|H]]; [constructor|constructor|now apply (IH _ H)].
 Qed.
 
-Lemma fs_get_set_other fs p n q : beq_path p q = false -> fs_get (fs_set fs p n) q = fs_get fs q.
+Definition final_op (sc : scenario) : list mstep :=
+  upd_op (UBasic (final_state sc)
+                 (if is_remote sc then SzConst (N.of_nat (length (sc_output sc))) else SzStdout)).
+
+Definition r_body (sc : scenario) : list (list mstep) :=
+  if is_remote sc then ticks 0 (sc_chunks sc) true
+  else upd_op (UBasic S_PENDING (SzConst 0)) :: fs_op (UOpenCreate FStdout) :: ticks 0 (sc_chunks sc) false.
+
+Lemma r_prog_split sc : r_prog sc = r_body sc ++ [final_op sc].
+Proof. unfold r_prog, r_body, final_op. destruct (is_remote sc); reflexivity. Qed.
+
+Lemma r_body_shape sc op : In op (r_body sc) -> rshape sc op.
 Proof.
-  intro H. induction fs as [|[a m] r IH]; simpl.
-  - now rewrite H.
-  - destruct (beq_path a p) eqn:E; simpl.
-    + apply beq_path_eq in E. subst a. now rewrite H.
-    + destruct (beq_path a q); [reflexivity|exact IH].
+  unfold r_body. destruct (is_remote sc); intro H.
+  - now apply (ticks_shape sc _ _ _ _ H).
+  - destruct H as [<-|[<-|H]]; [constructor|constructor|now apply (ticks_shape sc _ _ _ _ H)].
 Qed.
 
-(* an operation of unit u touches one path, which is [u] or below it *)
-Lemma fsop_path_under u o : is_under (unitp u) (op_path (fsop_of u o)) = true.
-Proof. destruct o; simpl; now rewrite N.eqb_refl. Qed.
-
-Lemma under_neq p q r : is_under p q = true -> is_under p r = false -> beq_path q r = false.
+Lemma r_body_stdout sc : stdout_of_ops (r_body sc) = sc_output sc.
 Proof.
-  revert q r; induction p as [|x p IH]; intros q r H1 H2; simpl in *; [discriminate|].
-  destruct q as [|y q]; [discriminate|]. destruct r as [|z r]; [reflexivity|].
-  simpl. apply andb_true_iff in H1 as [E1 H1]. apply N.eqb_eq in E1. subst y.
-  destruct (x =? z) eqn:E; simpl in *; [|reflexivity]. now apply IH.
+  unfold r_body, sc_output. destruct (is_remote sc); simpl; apply stdout_of_ticks.
 Qed.
 
-(* frame: the operations of unit u leave every path outside u's directory as it was *)
-Theorem fsop_frame : forall u o fs q,
-  is_under (unitp u) q = false -> fs_get (apply_op fs (fsop_of u o)) q = fs_get fs q.
+Lemma r_prog_length sc : length (r_prog sc) = S (length (r_body sc)).
+Proof. rewrite r_prog_split, app_length. simpl. lia. Qed.
+
+(* the m-th operation of the producer: the final one exactly at the last index *)
+Lemma r_prog_nth sc m op : nth_error (r_prog sc) m = Some op ->
+  (S m < length (r_prog sc))%nat /\ rshape sc op \/
+  (S m = length (r_prog sc) /\ op = final_op sc).
 Proof.
-  intros u o fs q Hq.
-  assert (Hne : beq_path (op_path (fsop_of u o)) q = false)
-    by (apply (under_neq (unitp u)); [apply fsop_path_under|exact Hq]).
-  destruct o; simpl in *;
-    repeat match goal with
-           | |- context [match fs_get fs ?p with _ => _ end] => destruct (fs_get fs p) as [[|?]|]
-           end; try reflexivity; now apply fs_get_set_other.
+  intro H. rewrite r_prog_split in H. rewrite r_prog_length.
+  destruct (Nat.lt_ge_cases m (length (r_body sc))) as [Hl|Hl].
+  - left. split; [lia|]. rewrite nth_error_app1 in H by exact Hl.
+    apply r_body_shape. eapply nth_error_In; eassumption.
+  - right. rewrite nth_error_app2 in H by exact Hl.
+    destruct (m - length (r_body sc))%nat as [|k] eqn:E.
+    + simpl in H. inversion H. split; [lia|reflexivity].
+    + simpl in H. destruct k; discriminate.
 Qed.
 
-(* the unit directory is a directory or absent, the unit's files are files or absent *)
-Definition well_typed (u : N) (fs : fsstate) : Prop :=
-  (fs_get fs (unitp u) = None \/ fs_get fs (unitp u) = Some Dir) /\
-  forall f, fs_get fs (filep u f) = None \/ exists c, fs_get fs (filep u f) = Some (File c).
-
-Lemma filep_neq u f g : f <> g -> beq_path (filep u f) (filep u g) = false.
-Proof. intro H. destruct f, g; try congruence; simpl; now rewrite N.eqb_refl. Qed.
-
-Lemma filep_unitp u f : beq_path (filep u f) (unitp u) = false.
-Proof. simpl. now rewrite N.eqb_refl. Qed.
-
-Lemma unitp_filep u f : beq_path (unitp u) (filep u f) = false.
-Proof. simpl. now rewrite N.eqb_refl. Qed.
-
-Lemma ufile_dec (f g : ufile) : {f = g} + {f <> g}.
-Proof. decide equality. Qed.
-
-Lemma content_set_same fs p c : file_content (fs_set fs p (File c)) p = Some c.
-Proof. unfold file_content. now rewrite fs_get_set_same. Qed.
-
-Lemma content_set_other fs p n q : beq_path p q = false ->
-  file_content (fs_set fs p n) q = file_content fs q.
-Proof. intro H. unfold file_content. now rewrite fs_get_set_other. Qed.
-
-Lemma isdir_set_other fs p n q : beq_path p q = false -> is_dir (fs_set fs p n) q = is_dir fs q.
-Proof. intro H. unfold is_dir. now rewrite fs_get_set_other. Qed.
-
-(* setting file f of unit u in the general file system is [uset] on the record *)
-Lemma project_set_file u fs f c :
-  project u (fs_set fs (filep u f) (File c)) = uset (project u fs) f (Some c).
+Lemma firstn_snoc {A} (l : list A) m x : nth_error l m = Some x -> firstn (S m) l = firstn m l ++ [x].
 Proof.
-  unfold project.
-  rewrite (isdir_set_other _ _ _ _ (filep_unitp u f)).
-  destruct f; simpl uset; f_equal;
-    try apply content_set_same;
-    try (apply content_set_other; apply filep_neq; discriminate).
+  revert m; induction l as [|y l IH]; intros [|m] H; simpl in *; try discriminate.
+  - now inversion H.
+  - f_equal. now apply IH.
 Qed.
 
-Lemma uget_project u fs f : uget (project u fs) f = file_content fs (filep u f).
+Lemma firstn_r_body sc : firstn (length (r_body sc)) (r_prog sc) = r_body sc.
+Proof. rewrite r_prog_split, firstn_app, Nat.sub_diag, firstn_all. simpl. apply app_nil_r. Qed.
+
+(* ---------- the invariant of histories of whole operations ---------- *)
+Definition ext_ok (sc : scenario) (n : nat) (e : extra) : Prop :=
+  match sc_remote sc with
+  | None => e = XNone \/ exists pid, e = XCmd pid
+  | Some (node, rtype) =>
+    exists nd rt ru st, e = XRemote nd rt ru st /\
+      ((3 <= n)%nat -> nd = node /\ rt = rtype) /\ (st = true <-> (9 <= n)%nat)
+  end.
+
+Record rec_ok (sc : scenario) (strict : bool) (n m : nat) (s : status) : Prop := mkRecOk {
+  ro_wtype : s_wtype s = sc_wtype sc;
+  ro_ext : ext_ok sc n (s_extra s);
+  ro_complete : strict = true -> st_complete (s_state s) = true -> m = length (r_prog sc);
+  ro_pending : strict = true -> m = 0%nat -> s_state s = S_PENDING;
+  ro_final : m = length (r_prog sc) ->
+             s_state s = final_state sc /\ s_size s = N.of_nat (length (sc_output sc))
+}.
+
+Record J (sc : scenario) (strict : bool) (g : gstate) : Prop := mkJ {
+  j_mem : (g_dn g <= 1)%nat -> g_dmem g = init_status sc;
+  j_dir : (1 <= g_dn g)%nat -> uf_dir (g_fs g) = true;
+  j_spawn : (1 <= g_rn g)%nat -> (d_spawn sc <= g_dn g)%nat;
+  j_bound : (g_rn g <= length (r_prog sc))%nat;
+  j_rec : (2 <= g_dn g)%nat ->
+          exists s, uf_status (g_fs g) = Some (encode s) /\ rec_ok sc strict (g_dn g) (g_rn g) s;
+  j_out : stdout_content (g_fs g) = stdout_of_ops (firstn (g_rn g) (r_prog sc))
+}.
+
+Lemma J_weaken sc g : J sc true g -> J sc false g.
+Proof.
+  intros [A B C D E F]. constructor; auto.
+  intro H. destruct (E H) as [s [Hs [R1 R2 R3 R4 R5]]]. exists s. split; [exact Hs|].
+  constructor; auto; discriminate.
+Qed.
+
+Lemma J0 sc strict : J sc strict (g0 sc).
+Proof.
+  constructor; simpl; intros; try lia; try reflexivity.
+Qed.
+
+Lemma r_prog_pos sc : (1 <= length (r_prog sc))%nat.
+Proof. rewrite r_prog_length. lia. Qed.
+
+Lemma d_spawn_ge sc : (8 <= d_spawn sc)%nat.
+Proof. unfold d_spawn. destruct (is_remote sc); lia. Qed.
+
+Lemma apply_upd_wtype x f s : s_wtype (apply_upd x f s) = s_wtype s.
 Proof. destruct f; reflexivity. Qed.
 
-Lemma uset_same x f : uset x f (uget x f) = x.
-Proof. destruct x, f; reflexivity. Qed.
-
-(* the steps of the unit model are the file-system operations they stand for *)
-Theorem project_apply : forall u fs o,
-  well_typed u fs ->
-  project u (apply_op fs (fsop_of u o)) = uapply (project u fs) o /\
-  well_typed u (apply_op fs (fsop_of u o)).
+Lemma save_op_full x m :
+  exec_steps (mkP x m false) save_op = mkP (with_status x (encode m)) m false.
 Proof.
-  intros u fs o [Hd Hf].
-  assert (Hset : forall f c, well_typed u (fs_set fs (filep u f) (File c))).
-  { intros f c. split.
-    - rewrite (fs_get_set_other _ _ _ _ (filep_unitp u f)). exact Hd.
-    - intro g. destruct (ufile_dec f g) as [->|Hne].
-      + right. exists c. apply fs_get_set_same.
-      + rewrite (fs_get_set_other _ _ _ _ (filep_neq u f g Hne)). apply Hf. }
-  destruct o as [|f|f|f|f off b|f b]; simpl fsop_of; simpl apply_op.
-  - (* Mkdir *)
-    destruct Hd as [Hd|Hd]; rewrite Hd.
-    + split.
-      * unfold project, uapply. simpl.
-        unfold is_dir. rewrite fs_get_set_same.
-        f_equal; apply content_set_other; apply unitp_filep.
-      * split; [right; apply fs_get_set_same|].
-        intro g. rewrite (fs_get_set_other _ _ _ _ (unitp_filep u g)). apply Hf.
-    + split; [|split; [now right|exact Hf]].
-      unfold project, uapply, is_dir. simpl. rewrite Hd. reflexivity.
-  - (* OpenCreate *)
-    unfold uapply. rewrite uget_project. unfold file_content.
-    destruct (Hf f) as [E|[c E]]; rewrite E.
-    + split; [apply project_set_file|apply Hset].
-    + split; [reflexivity|split; [exact Hd|exact Hf]].
-  - (* OpenTrunc *)
-    unfold uapply.
-    destruct (Hf f) as [E|[c E]]; rewrite E; (split; [apply project_set_file|apply Hset]).
-  - (* Truncate *)
-    unfold uapply. rewrite uget_project. unfold file_content.
-    destruct (Hf f) as [E|[c E]]; rewrite E.
-    + split; [reflexivity|split; [exact Hd|exact Hf]].
-    + split; [apply project_set_file|apply Hset].
-  - (* WriteAt *)
-    unfold uapply. rewrite uget_project. unfold file_content.
-    destruct (Hf f) as [E|[c E]]; rewrite E.
-    + split; [reflexivity|split; [exact Hd|exact Hf]].
-    + split; [apply project_set_file|apply Hset].
-  - (* Append *)
-    unfold uapply. rewrite uget_project. unfold file_content.
-    destruct (Hf f) as [E|[c E]]; rewrite E; (split; [apply project_set_file|apply Hset]).
+  unfold save_op, exec_steps. cbn [fold_left]. rewrite !exec_op, exec_store.
+  unfold uapply. cbn [uget uset uf_dir uf_status uf_lock uf_stdin uf_stdout].
+  now rewrite write_at_nil.
 Qed.
 
-Lemma well_typed_empty u : well_typed u [].
-Proof. split; [now left|intro f; now left]. Qed.
+(* a daemon-side rewrite of an intact record: what matters of the update *)
+Inductive dupd_ok (sc : scenario) (n : nat) : upd -> Prop :=
+| DU_pending : (3 <= n)%nat -> (S (S n) <= d_spawn sc)%nat -> dupd_ok sc n (UBasic S_PENDING (SzConst 0))
+| DU_pid pid : sc_remote sc = None -> dupd_ok sc n (USetPid pid)
+| DU_clear : sc_remote sc = None -> dupd_ok sc n UClearExtra
+| DU_bind node rtype : sc_remote sc = Some (node, rtype) -> n = 2%nat -> dupd_ok sc n (URemoteBind node rtype)
+| DU_runit id : sc_remote sc <> None -> n = 7%nat -> dupd_ok sc n (URemoteUnit id)
+| DU_started : sc_remote sc <> None -> n = 8%nat -> dupd_ok sc n URemoteStarted.
 
-(* ====================================================================================== *)
-(* B. the encoding of the record                                                           *)
-(* ====================================================================================== *)
-
-Lemma take_bytes_enc b r : take_bytes (enc_bytes b ++ r) = Some (b, r).
+Lemma J_dupd sc strict g f da ra :
+  J sc strict g -> (2 <= g_dn g)%nat -> dupd_ok sc (g_dn g) f ->
+  let p := exec_steps (mkP (g_fs g) (g_dmem g) false) (upd_op f) in
+  J sc strict (mkG (p_fs p) (p_mem p) (g_rmem g) (S (g_dn g)) (g_rn g) da ra).
 Proof.
-  unfold enc_bytes, take_bytes. simpl. rewrite Nat2N.id.
-  assert (H : Nat.leb (length b) (length (b ++ r)) = true)
-    by (apply Nat.leb_le; rewrite app_length; lia).
-  rewrite H. f_equal. f_equal.
-  - rewrite firstn_app, Nat.sub_diag, firstn_all. simpl. apply app_nil_r.
-  - rewrite skipn_app, Nat.sub_diag, skipn_all. reflexivity.
+  intros HJ Hn Hf. destruct (j_rec _ _ _ HJ Hn) as [s [Hs Hr]].
+  cbv zeta. rewrite (upd_op_full _ _ f s Hs). cbn [p_fs p_mem].
+  constructor; cbn [g_dn g_rn g_fs g_dmem]; try lia.
+  - intros _. cbn [with_status uf_dir]. apply (j_dir _ _ _ HJ). lia.
+  - intro H. pose proof (j_spawn _ _ _ HJ H). lia.
+  - exact (j_bound _ _ _ HJ).
+  - intros _. eexists. split; [reflexivity|].
+    destruct Hr as [R1 R2 R3 R4 R5].
+    assert (Hm0 : (S (g_dn g) <= d_spawn sc)%nat -> g_rn g = 0%nat).
+    { intro H. destruct (g_rn g) eqn:E; [reflexivity|].
+      pose proof (j_spawn _ _ _ HJ ltac:(lia)). lia. }
+    pose proof (r_prog_pos sc) as Hp.
+    constructor.
+    + now rewrite apply_upd_wtype.
+    + unfold ext_ok in *. inversion Hf; subst; cbn [apply_upd s_extra].
+      * (* pending: extra unchanged; the binding facts only grow with n *)
+        destruct (sc_remote sc) as [[node rtype]|] eqn:Er; [|exact R2].
+        destruct R2 as [nd [rt [ru [st [E [B S]]]]]]. exists nd, rt, ru, st. split; [exact E|].
+        assert (Hsp : d_spawn sc = 9%nat) by (unfold d_spawn, is_remote; now rewrite Er).
+        split; [intro; apply B; lia|]. split; intro X; [apply S in X; lia|lia].
+      * rewrite H. right. now exists pid.
+      * rewrite H. now left.
+      * rewrite H in *. destruct R2 as [nd [rt [ru [st [E [B S]]]]]]. rewrite E.
+        exists node, rtype, ru, st. split; [reflexivity|]. split; [auto|].
+        split; intro X; [apply S in X; lia|lia].
+      * destruct (sc_remote sc) as [[node rtype]|]; [|congruence].
+        destruct R2 as [nd [rt [ru [st [E [B S]]]]]]. rewrite E.
+        exists nd, rt, id, st. split; [reflexivity|]. split; [intro; apply B; lia|].
+        split; intro X; [apply S in X; lia|lia].
+      * destruct (sc_remote sc) as [[node rtype]|]; [|congruence].
+        destruct R2 as [nd [rt [ru [st [E [B S]]]]]]. rewrite E.
+        exists nd, rt, ru, true. split; [reflexivity|]. split; [intro; apply B; lia|].
+        split; intro X; [lia|reflexivity].
+    + intros Hst Hc. inversion Hf; subst; cbn [apply_upd s_state] in Hc; try (now apply R3).
+    + intros Hst Hm. inversion Hf; subst; cbn [apply_upd s_state]; try (now apply R4). reflexivity.
+    + intro Hm. inversion Hf; subst; cbn [apply_upd s_state s_size]; try (now apply R5).
+      specialize (Hm0 ltac:(lia)). lia.
+  - cbn [with_status stdout_content uf_stdout]. exact (j_out _ _ _ HJ).
 Qed.
 
-Lemma dec_extra_2 r : dec_extra (2 :: r) =
-  match take_bytes r with
-  | Some (n, r1) =>
-    match take_bytes r1 with
-    | Some (t, r2) =>
-      match take_bytes r2 with
-      | Some (u, st :: r3) =>
-        if st =? 0 then Some (XRemote n t u false, r3)
-        else if st =? 1 then Some (XRemote n t u true, r3) else None
-      | _ => None
-      end
-    | None => None
-    end
-  | None => None
+(* ---------- the daemon's operations ---------- *)
+Inductive dshape (sc : scenario) (n : nat) : list mstep -> Prop :=
+| DS_mkdir : n = 0%nat -> dshape sc n (fs_op UMkdir)
+| DS_save : n = 1%nat -> dshape sc n save_op
+| DS_stdin o : (2 <= n)%nat -> (sc_remote sc <> None -> (3 <= n <= 6)%nat) ->
+               (o = UOpenCreate FStdin \/ exists b, o = UAppend FStdin b) -> dshape sc n (fs_op o)
+| DS_spawn : (2 <= n)%nat -> sc_remote sc = None -> dshape sc n []
+| DS_upd f : (2 <= n)%nat -> dupd_ok sc n f -> dshape sc n (upd_op f).
+
+Lemma d_prog_nth sc n op : nth_error (d_prog sc) n = Some op -> dshape sc n op.
+Proof.
+  unfold d_prog. destruct (sc_remote sc) as [[node rtype]|] eqn:Er; intro H.
+  - assert (Hsp : d_spawn sc = 9%nat) by (unfold d_spawn, is_remote; now rewrite Er).
+    assert (Hne : sc_remote sc <> None) by (rewrite Er; discriminate).
+    destruct n as [|[|[|[|[|[|[|n]]]]]]]; [simpl in H; inversion H; subst op..|].
+    + now constructor.
+    + now constructor.
+    + apply DS_upd; [lia|]. now apply DU_bind.
+    + apply DS_stdin; [lia|lia|now left].
+    + apply DS_upd; [lia|]. apply DU_pending; lia.
+    + apply DS_stdin; [lia|lia|right; eauto].
+    + apply DS_upd; [lia|]. apply DU_pending; lia.
+    + simpl in H. destruct (sc_reach sc); simpl in H.
+      * destruct n as [|[|n]]; [simpl in H; inversion H; subst op..|].
+        -- apply DS_upd; [lia|]. now apply DU_runit.
+        -- apply DS_upd; [lia|]. now apply DU_started.
+        -- destruct n; discriminate.
+      * destruct n; discriminate.
+  - assert (Hsp : d_spawn sc = 8%nat) by (unfold d_spawn, is_remote; now rewrite Er).
+    destruct n as [|[|[|[|[|[|[|[|[|[|n]]]]]]]]]]; [simpl in H; inversion H; subst op..|].
+    + now constructor.
+    + now constructor.
+    + apply DS_stdin; [lia|congruence|now left].
+    + apply DS_upd; [lia|]. apply DU_pending; lia.
+    + apply DS_stdin; [lia|congruence|right; eauto].
+    + apply DS_upd; [lia|]. apply DU_pending; lia.
+    + apply DS_upd; [lia|]. apply DU_pending; lia.
+    + apply DS_spawn; [lia|exact Er].
+    + apply DS_upd; [lia|]. now apply DU_pid.
+    + apply DS_upd; [lia|]. now apply DU_clear.
+    + destruct n; discriminate.
+Qed.
+
+Lemma d_next_nth sc g op : d_next sc g = Some op -> nth_error (d_prog sc) (g_dn g) = Some op.
+Proof.
+  unfold d_next. destruct (negb (g_dalive g)); [discriminate|].
+  destruct (is_remote sc); [auto|].
+  destruct (Nat.eqb (g_dn g) d_wait && g_ralive g && negb (r_finished sc g)); [discriminate|auto].
+Qed.
+
+Lemma ext_ok_step sc n e :
+  ext_ok sc n e -> (sc_remote sc <> None -> (3 <= n <= 6)%nat) -> ext_ok sc (S n) e.
+Proof.
+  unfold ext_ok. destruct (sc_remote sc) as [[node rtype]|]; [|auto].
+  intros [nd [rt [ru [st [E [B S]]]]]] H. specialize (H ltac:(discriminate)).
+  exists nd, rt, ru, st. split; [exact E|]. split; [intro; apply B; lia|].
+  split; intro X; [apply S in X; lia|lia].
+Qed.
+
+(* an operation that does not touch the record or stdout *)
+Lemma J_dother sc strict g x' da ra :
+  J sc strict g -> (2 <= g_dn g)%nat ->
+  (sc_remote sc <> None -> (3 <= g_dn g <= 6)%nat) ->
+  uf_dir x' = uf_dir (g_fs g) -> uf_status x' = uf_status (g_fs g) -> uf_stdout x' = uf_stdout (g_fs g) ->
+  J sc strict (mkG x' (g_dmem g) (g_rmem g) (S (g_dn g)) (g_rn g) da ra).
+Proof.
+  intros HJ Hn Hrem Hd Hs Ho.
+  constructor; cbn [g_dn g_rn g_fs g_dmem]; try lia.
+  - intros _. rewrite Hd. apply (j_dir _ _ _ HJ). lia.
+  - intro H. pose proof (j_spawn _ _ _ HJ H). lia.
+  - exact (j_bound _ _ _ HJ).
+  - intros _. destruct (j_rec _ _ _ HJ Hn) as [s [Es [R1 R2 R3 R4 R5]]]. exists s.
+    split; [now rewrite Hs|]. constructor; auto. now apply ext_ok_step.
+  - unfold stdout_content. rewrite Ho. exact (j_out _ _ _ HJ).
+Qed.
+
+Lemma J_gstep_d sc strict g : J sc strict g -> J sc strict (gstep sc g true).
+Proof.
+  intro HJ. unfold gstep. destruct (d_next sc g) as [op|] eqn:E; [|exact HJ].
+  apply d_next_nth, d_prog_nth in E.
+  destruct E as [Hn|Hn|o Hn Hrem Ho|Hn Hloc|f Hn Hf].
+  - (* mkdir *)
+    unfold fs_op, exec_steps. cbn [fold_left]. rewrite exec_op. cbn [p_fs p_mem].
+    constructor; cbn [g_dn g_rn g_fs g_dmem]; rewrite ?Hn; try lia.
+    + intros _. apply (j_mem _ _ _ HJ). lia.
+    + intros _. reflexivity.
+    + intro H. pose proof (j_spawn _ _ _ HJ H). pose proof (d_spawn_ge sc). lia.
+    + exact (j_bound _ _ _ HJ).
+    + exact (j_out _ _ _ HJ).
+  - (* Save *)
+    rewrite save_op_full. cbn [p_fs p_mem].
+    assert (Hm : g_dmem g = init_status sc) by (apply (j_mem _ _ _ HJ); lia).
+    assert (Hm0 : g_rn g = 0%nat).
+    { destruct (g_rn g) eqn:E; [reflexivity|]. pose proof (j_spawn _ _ _ HJ ltac:(lia)).
+      pose proof (d_spawn_ge sc). lia. }
+    pose proof (r_prog_pos sc) as Hp.
+    constructor; cbn [g_dn g_rn g_fs g_dmem]; rewrite ?Hn; try lia.
+    + intros _. cbn [with_status uf_dir]. apply (j_dir _ _ _ HJ). lia.
+    + intros _. eexists. split; [reflexivity|]. rewrite Hm.
+      constructor; unfold init_status; cbn [s_wtype s_extra s_state s_size].
+      * reflexivity.
+      * unfold ext_ok, is_remote. destruct (sc_remote sc) as [[node rtype]|].
+        -- exists [], [], [], false. split; [reflexivity|]. split; [lia|]. split; [discriminate|lia].
+        -- right. now exists 0.
+      * discriminate.
+      * reflexivity.
+      * lia.
+    + cbn [with_status stdout_content uf_stdout]. exact (j_out _ _ _ HJ).
+  - (* stdin *)
+    unfold fs_op, exec_steps. cbn [fold_left]. rewrite exec_op. cbn [p_fs p_mem].
+    apply J_dother; auto; destruct Ho as [->|[b ->]]; unfold uapply; cbn [uget];
+      destruct (uf_stdin (g_fs g)); reflexivity.
+  - (* the runner is started: no step *)
+    unfold exec_steps. cbn [fold_left p_fs p_mem].
+    apply J_dother; auto. intro H. congruence.
+  - now apply J_dupd.
+Qed.
+
+(* ---------- the producer's operations ---------- *)
+Lemma r_next_nth sc g op : r_next sc g = Some op ->
+  (d_spawn sc <= g_dn g)%nat /\ nth_error (r_prog sc) (g_rn g) = Some op.
+Proof.
+  unfold r_next, r_spawned. destruct (Nat.leb (d_spawn sc) (g_dn g)) eqn:E; [|discriminate].
+  apply Nat.leb_le in E. cbn [negb].
+  destruct (is_remote sc); [destruct (g_dalive g)|destruct (g_ralive g)]; try discriminate; auto.
+Qed.
+
+Lemma appended_upd f : appended (upd_op f) = [].
+Proof. reflexivity. Qed.
+
+Lemma stdout_snoc sc m op : nth_error (r_prog sc) m = Some op ->
+  stdout_of_ops (firstn (S m) (r_prog sc)) = stdout_of_ops (firstn m (r_prog sc)) ++ appended op.
+Proof.
+  intro H. rewrite (firstn_snoc _ _ _ H), stdout_of_ops_app. unfold stdout_of_ops at 3. simpl.
+  now rewrite app_nil_r.
+Qed.
+
+(* a producer-side rewrite of an intact record, by whichever process and in-memory record *)
+Lemma J_rupd sc strict g mem st sz dm' rm' da ra :
+  J sc strict g -> (d_spawn sc <= g_dn g)%nat ->
+  nth_error (r_prog sc) (g_rn g) = Some (upd_op (UBasic st sz)) ->
+  ((S (g_rn g) < length (r_prog sc))%nat /\ st_complete st = false \/
+   S (g_rn g) = length (r_prog sc) /\ upd_op (UBasic st sz) = final_op sc) ->
+  let p := exec_steps (mkP (g_fs g) mem false) (upd_op (UBasic st sz)) in
+  J sc strict (mkG (p_fs p) dm' rm' (g_dn g) (S (g_rn g)) da ra).
+Proof.
+  intros HJ Hsp Hnth Hcase. pose proof (d_spawn_ge sc) as Hge.
+  destruct (j_rec _ _ _ HJ ltac:(lia)) as [s [Hs [R1 R2 R3 R4 R5]]].
+  cbv zeta. rewrite (upd_op_full _ _ _ s Hs). cbn [p_fs p_mem].
+  assert (Hlt : (g_rn g < length (r_prog sc))%nat) by (apply nth_error_Some; congruence).
+  constructor; cbn [g_dn g_rn g_fs g_dmem]; try lia.
+  - intros _. cbn [with_status uf_dir]. apply (j_dir _ _ _ HJ). lia.
+  - intros _. eexists. split; [reflexivity|].
+    constructor; cbn [apply_upd s_wtype s_extra s_state s_size]; auto.
+    + intros Hst Hc. destruct Hcase as [[_ Hn]|[Hl _]]; [congruence|exact Hl].
+    + intros _ H. lia.
+    + intro Hl. destruct Hcase as [[Hl' _]|[_ Hf]]; [lia|].
+      unfold final_op in Hf. inversion Hf; subst st. split; [reflexivity|].
+      destruct (is_remote sc); subst sz; [reflexivity|].
+      unfold stdout_size. rewrite (j_out _ _ _ HJ).
+      assert (Hm : g_rn g = length (r_body sc)) by (rewrite r_prog_length in Hl; lia).
+      now rewrite Hm, firstn_r_body, r_body_stdout.
+  - cbn [with_status stdout_content uf_stdout]. rewrite (stdout_snoc _ _ _ Hnth), appended_upd, app_nil_r.
+    exact (j_out _ _ _ HJ).
+Qed.
+
+(* a producer-side operation on stdout only *)
+Lemma J_rout sc strict g x' c dm' rm' da ra op :
+  J sc strict g -> (d_spawn sc <= g_dn g)%nat ->
+  nth_error (r_prog sc) (g_rn g) = Some op -> (S (g_rn g) < length (r_prog sc))%nat ->
+  appended op = c ->
+  uf_dir x' = uf_dir (g_fs g) -> uf_status x' = uf_status (g_fs g) ->
+  stdout_content x' = stdout_content (g_fs g) ++ c ->
+  J sc strict (mkG x' dm' rm' (g_dn g) (S (g_rn g)) da ra).
+Proof.
+  intros HJ Hsp Hnth Hlt Hc Hd Hs Ho. pose proof (d_spawn_ge sc) as Hge.
+  constructor; cbn [g_dn g_rn g_fs g_dmem]; try lia.
+  - intros _. rewrite Hd. apply (j_dir _ _ _ HJ). lia.
+  - intros _. destruct (j_rec _ _ _ HJ ltac:(lia)) as [s [Es [R1 R2 R3 R4 R5]]]. exists s.
+    split; [now rewrite Hs|]. constructor; auto.
+    + intros Hst Hcomp. specialize (R3 Hst Hcomp). lia.
+    + intros _ H. lia.
+    + intro H. lia.
+  - rewrite Ho, (stdout_snoc _ _ _ Hnth), Hc. now rewrite (j_out _ _ _ HJ).
+Qed.
+
+Lemma J_gstep_r sc strict g : J sc strict g -> J sc strict (gstep sc g false).
+Proof.
+  intro HJ. unfold gstep. destruct (r_next sc g) as [op|] eqn:E; [|exact HJ].
+  apply r_next_nth in E as [Hsp Hnth].
+  assert (Hgoal : forall mem dm' rm' da ra,
+             J sc strict (mkG (p_fs (exec_steps (mkP (g_fs g) mem false) op)) dm' rm'
+                              (g_dn g) (S (g_rn g)) da ra)).
+  { intros mem dm' rm' da ra.
+    destruct (r_prog_nth _ _ _ Hnth) as [[Hlt Hsh]|[Hl Hop]].
+    - destruct Hsh as [| |c|sz].
+      + apply J_rupd; auto.
+      + unfold fs_op, exec_steps. cbn [fold_left]. rewrite exec_op. cbn [p_fs].
+        eapply (J_rout _ _ _ _ []); eauto; try reflexivity;
+          unfold uapply; cbn [uget]; destruct (uf_stdout (g_fs g)) eqn:Eo;
+          try reflexivity; unfold stdout_content; cbn [uset uf_stdout]; rewrite ?Eo; now rewrite ?app_nil_r.
+      + unfold fs_op, exec_steps. cbn [fold_left]. rewrite exec_op. cbn [p_fs].
+        eapply (J_rout _ _ _ _ c); eauto; try reflexivity;
+          unfold uapply; cbn [uget]; destruct (uf_stdout (g_fs g)) eqn:Eo;
+          try reflexivity; unfold stdout_content; cbn [uset uf_stdout]; rewrite ?Eo; reflexivity.
+      + apply J_rupd; auto.
+    - subst op. unfold final_op in *. apply J_rupd; auto. }
+  destruct (is_remote sc); apply Hgoal.
+Qed.
+
+Lemma J_gstep sc strict g who : J sc strict g -> J sc strict (gstep sc g who).
+Proof. destruct who; [apply J_gstep_d|apply J_gstep_r]. Qed.
+
+Lemma J_grun sc strict sched : forall g, J sc strict g -> J sc strict (grun sc g sched).
+Proof.
+  induction sched as [|w r IH]; intros g H; [exact H|]. simpl. apply IH. now apply J_gstep.
+Qed.
+
+(* ---------- bookkeeping of runs ---------- *)
+Lemma gstep_flags sc g w :
+  g_dalive (gstep sc g w) = g_dalive g /\ g_ralive (gstep sc g w) = g_ralive g.
+Proof.
+  unfold gstep. destruct w.
+  - destruct (d_next sc g); auto.
+  - destruct (r_next sc g); auto. destruct (is_remote sc); auto.
+Qed.
+
+Lemma gstep_counters sc g w :
+  (g_dn g <= g_dn (gstep sc g w))%nat /\ (g_rn g <= g_rn (gstep sc g w))%nat.
+Proof.
+  unfold gstep. destruct w.
+  - destruct (d_next sc g); simpl; lia.
+  - destruct (r_next sc g); [destruct (is_remote sc)|]; simpl; lia.
+Qed.
+
+Lemma grun_cons sc g w r : grun sc g (w :: r) = grun sc (gstep sc g w) r.
+Proof. reflexivity. Qed.
+
+Lemma grun_flags sc sched : forall g,
+  g_dalive (grun sc g sched) = g_dalive g /\ g_ralive (grun sc g sched) = g_ralive g.
+Proof.
+  induction sched as [|w r IH]; intro g; [auto|]. rewrite grun_cons.
+  destruct (IH (gstep sc g w)) as [A B]. destruct (gstep_flags sc g w) as [C D].
+  split; congruence.
+Qed.
+
+Lemma grun_counters sc sched : forall g,
+  (g_dn g <= g_dn (grun sc g sched))%nat /\ (g_rn g <= g_rn (grun sc g sched))%nat.
+Proof.
+  induction sched as [|w r IH]; intro g; [simpl; lia|]. rewrite grun_cons.
+  destruct (IH (gstep sc g w)). destruct (gstep_counters sc g w). lia.
+Qed.
+
+Lemma gstep_r_idle sc g : r_next sc g = None -> gstep sc g false = g.
+Proof. intro H. unfold gstep. now rewrite H. Qed.
+
+Lemma grun_r_idle sc g k : r_next sc g = None -> grun sc g (repeat false k) = g.
+Proof.
+  intro H. induction k as [|k IH]; [reflexivity|].
+  change (repeat false (S k)) with (false :: repeat false k).
+  now rewrite grun_cons, (gstep_r_idle _ _ H).
+Qed.
+
+Lemma gstep_r_progress sc g op : r_next sc g = Some op ->
+  g_dn (gstep sc g false) = g_dn g /\ g_rn (gstep sc g false) = S (g_rn g).
+Proof. intro H. unfold gstep. rewrite H. destruct (is_remote sc); auto. Qed.
+
+Definition r_enabled (sc : scenario) (g : gstate) : Prop :=
+  r_spawned sc g = true /\ (if is_remote sc then g_dalive g = true else g_ralive g = true).
+
+Lemma r_next_some sc g : r_enabled sc g -> (g_rn g < length (r_prog sc))%nat ->
+  exists op, r_next sc g = Some op.
+Proof.
+  intros [Hs Ha] Hl. unfold r_next. rewrite Hs. cbn [negb].
+  destruct (nth_error (r_prog sc) (g_rn g)) as [op|] eqn:E.
+  - exists op. destruct (is_remote sc); now rewrite Ha.
+  - apply nth_error_None in E. lia.
+Qed.
+
+Lemma r_enabled_step sc g : r_enabled sc g -> r_enabled sc (gstep sc g false).
+Proof.
+  intros [Hs Ha]. destruct (gstep_flags sc g false) as [A B].
+  destruct (gstep_counters sc g false) as [C _]. split.
+  - unfold r_spawned in *. apply Nat.leb_le. apply Nat.leb_le in Hs. lia.
+  - destruct (is_remote sc); congruence.
+Qed.
+
+(* the producer, left alone, runs to the end of its program *)
+Lemma grun_r_complete sc k : forall g,
+  r_enabled sc g -> (g_rn g <= length (r_prog sc))%nat -> (length (r_prog sc) - g_rn g <= k)%nat ->
+  g_rn (grun sc g (repeat false k)) = length (r_prog sc) /\
+  g_dn (grun sc g (repeat false k)) = g_dn g.
+Proof.
+  induction k as [|k IH]; intros g He Hb Hk.
+  - simpl. split; [lia|reflexivity].
+  - change (repeat false (S k)) with (false :: repeat false k). rewrite grun_cons.
+    destruct (Nat.eq_dec (g_rn g) (length (r_prog sc))) as [Heq|Hne].
+    + assert (Hn : r_next sc g = None).
+      { unfold r_next. destruct (negb (r_spawned sc g)); [reflexivity|].
+        assert (nth_error (r_prog sc) (g_rn g) = None) by (apply nth_error_None; lia).
+        destruct (is_remote sc); [destruct (g_dalive g)|destruct (g_ralive g)]; auto. }
+      rewrite (gstep_r_idle _ _ Hn), (grun_r_idle _ _ _ Hn). split; [exact Heq|reflexivity].
+    + destruct (r_next_some sc g He ltac:(lia)) as [op Hop].
+      destruct (gstep_r_progress _ _ _ Hop) as [Hd Hr].
+      destruct (IH (gstep sc g false) (r_enabled_step _ _ He) ltac:(lia) ltac:(lia)) as [A B].
+      split; [exact A|congruence].
+Qed.
+
+(* ---------- the invariant does not see the lock file, the flags or the runner's memory ---------- *)
+Lemma J_core sc strict g x' dm' rm' da ra :
+  J sc strict g -> core x' = core (g_fs g) -> ((g_dn g <= 1)%nat -> dm' = g_dmem g) ->
+  J sc strict (mkG x' dm' rm' (g_dn g) (g_rn g) da ra).
+Proof.
+  intros [A B C D E F] Hc Hm. unfold core in Hc. inversion Hc as [[H1 H2 H3 H4]].
+  constructor; cbn [g_dn g_rn g_fs g_dmem]; auto.
+  - intro H. rewrite (Hm H). auto.
+  - rewrite H1. auto.
+  - rewrite H2. auto.
+  - unfold stdout_content. rewrite H4. exact F.
+Qed.
+
+Lemma window_upd f : window_cut (upd_op f) = Some 5%nat.
+Proof. reflexivity. Qed.
+
+(* ---------- the crash of the daemon outside the windows ---------- *)
+Definition outside_window (sc : scenario) (g : gstate) (cut : nat) : Prop :=
+  match snd (victim_next sc g false) with
+  | Some o => match window_cut o with Some k => Nat.eqb cut k | None => false end
+  | None => false
+  end = false.
+
+Lemma cut_core sc g cut op mem :
+  J sc true g -> (d_ack sc <= g_dn g)%nat ->
+  (d_next sc g = Some op \/ r_next sc g = Some op) ->
+  Nat.leb (length op) cut = false ->
+  match window_cut op with Some k => Nat.eqb cut k | None => false end = false ->
+  core (p_fs (exec_steps (mkP (g_fs g) mem false) (firstn cut op))) = core (g_fs g).
+Proof.
+  intros HJ Hack Hop Hlen Hwin. apply Nat.leb_gt in Hlen.
+  assert (Hn2 : (2 <= g_dn g)%nat) by (unfold d_ack in Hack; destruct (is_remote sc); lia).
+  destruct (j_rec _ _ _ HJ Hn2) as [s [Hs _]].
+  assert (Hupd : forall f, op = upd_op f ->
+            core (p_fs (exec_steps (mkP (g_fs g) mem false) (firstn cut op))) = core (g_fs g)).
+  { intros f ->. rewrite window_upd in Hwin. apply Nat.eqb_neq in Hwin.
+    simpl in Hlen. apply (upd_op_cut _ _ _ s); [exact Hs|lia]. }
+  assert (Hone : forall o, op = fs_op o ->
+            core (p_fs (exec_steps (mkP (g_fs g) mem false) (firstn cut op))) = core (g_fs g)).
+  { intros o ->. simpl in Hlen. assert (cut = 0%nat) by lia. subst cut. reflexivity. }
+  destruct Hop as [Hd|Hr].
+  - apply d_next_nth, d_prog_nth in Hd.
+    destruct Hd as [Hn|Hn|o Hn Hrem Ho|Hn Hloc|f Hn Hf].
+    + unfold d_ack in Hack. destruct (is_remote sc); lia.
+    + unfold d_ack in Hack. destruct (is_remote sc); lia.
+    + now apply (Hone o).
+    + simpl in Hlen. lia.
+    + now apply (Hupd f).
+  - apply r_next_nth in Hr as [_ Hnth].
+    destruct (r_prog_nth _ _ _ Hnth) as [[_ Hsh]|[_ ->]].
+    + destruct Hsh; [eapply Hupd|eapply Hone|eapply Hone|eapply Hupd]; reflexivity.
+    + eapply Hupd. reflexivity.
+Qed.
+
+Lemma gcrash_daemon sc g cut :
+  J sc true g -> g_ralive g = true -> (d_ack sc <= g_dn g)%nat -> outside_window sc g cut ->
+  let g2 := gcrash sc g false cut in
+  J sc true g2 /\ g_dalive g2 = false /\ g_ralive g2 = true /\
+  (g_dn g <= g_dn g2)%nat /\ (g_rn g <= g_rn g2)%nat.
+Proof.
+  intros HJ Hra Hack Hwin. unfold gcrash. cbn [andb].
+  unfold outside_window in Hwin.
+  destruct (victim_next sc g false) as [who [op|]] eqn:Ev; cbn [snd] in Hwin.
+  - destruct (Nat.leb (length op) cut) eqn:El.
+    + (* the operation is completed *)
+      unfold kill. cbn [g_fs g_dmem g_rmem g_dn g_rn g_dalive g_ralive].
+      destruct (gstep_flags sc g who) as [_ B]. destruct (gstep_counters sc g who) as [C D].
+      pose proof (J_gstep sc true g who HJ) as HJ'.
+      split; [|split; [reflexivity|split; [congruence|split; lia]]].
+      apply (J_core sc true (gstep sc g who)); auto.
+    + (* it is cut *)
+      unfold kill. cbn [g_fs g_dmem g_rmem g_dn g_rn g_dalive g_ralive].
+      split; [|split; [reflexivity|split; [exact Hra|split; lia]]].
+      apply (J_core sc true g); auto.
+      apply (cut_core sc g cut op); auto.
+      unfold victim_next in Ev. cbn [andb] in Ev.
+      destruct (is_remote sc && Nat.leb (d_spawn sc) (g_dn g)); inversion Ev; auto.
+  - unfold kill. cbn [g_fs g_dmem g_rmem g_dn g_rn g_dalive g_ralive].
+    split; [|split; [reflexivity|split; [exact Hra|split; lia]]]. apply (J_core sc true g); auto.
+Qed.
+
+(* ---------- the experiment, piece by piece ---------- *)
+Definition g1of (sc : scenario) (cp : crashpoint) : gstate := grun sc (g0 sc) (cp_sched cp).
+Definition g2of (sc : scenario) (cp : crashpoint) : gstate :=
+  gcrash sc (g1of sc cp) (cp_runner cp) (cp_cut cp).
+Definition g3of (sc : scenario) (cp : crashpoint) : gstate :=
+  grun sc (g2of sc cp) (repeat (cp_runner cp) (cp_gap cp)).
+Definition g4of (sc : scenario) (cp : crashpoint) (x4 : ufiles) (v : view) : gstate :=
+  mkG x4 (v_status v) (g_rmem (g3of sc cp)) (g_dn (g3of sc cp)) (g_rn (g3of sc cp))
+      (is_remote sc && v_monitored v) (g_ralive (g3of sc cp) && negb (is_remote sc)).
+Definition g5of (sc : scenario) (cp : crashpoint) (x4 : ufiles) (v : view) : gstate :=
+  if is_remote sc && negb (is_remote sc && v_monitored v) then g4of sc cp x4 v
+  else grun sc (g4of sc cp x4 v) (rest_sched sc).
+Definition vfof (sc : scenario) (cp : crashpoint) (x4 : ufiles) (v : view) : view :=
+  if is_remote sc
+  then (if is_remote sc && v_monitored v
+        then mkView true true (follow (g_fs (g5of sc cp x4 v)) (v_status v)) true else v)
+  else if v_monitored v
+       then mkView (v_listed v) (v_known v) (follow (g_fs (g5of sc cp x4 v)) (v_status v)) true
+       else v.
+Definition beforeof (sc : scenario) (cp : crashpoint) : option status :=
+  match record_of (g_fs (g2of sc cp)) with
+  | Some r => Some r
+  | None => record_of (g_fs (g1of sc cp))
   end.
-Proof. reflexivity. Qed.
 
-Lemma dec_extra_enc e r : dec_extra (enc_extra e ++ r) = Some (e, r).
+Lemma experiment_eq sc cp x4 v :
+  recover (sc_types sc) (g_fs (g3of sc cp)) = (x4, v) ->
+  experiment sc cp =
+  mkOut (Nat.leb (d_ack sc) (g_dn (g1of sc cp))) (r_spawned sc (g2of sc cp)) (beforeof sc cp)
+        v (vfof sc cp x4 v) (g_fs (g5of sc cp x4 v))
+        (snd (recover (sc_types sc) (g_fs (g5of sc cp x4 v)))).
 Proof.
-  destruct e as [|pid|n t u st]; [reflexivity|reflexivity|].
-  unfold enc_extra. rewrite <- !app_assoc.
-  change ([2] ++ ?x) with (2 :: x).
-  rewrite dec_extra_2, !take_bytes_enc.
-  destruct st; reflexivity.
+  intro H. unfold experiment. cbv zeta.
+  fold (g1of sc cp). fold (g2of sc cp). fold (g3of sc cp). rewrite H. reflexivity.
 Qed.
 
-Lemma parse_123 st sz r : parse (123 :: st :: sz :: r) =
-  match take_bytes r with
-  | Some (wt, r1) =>
-    match dec_extra r1 with
-    | Some (ex, [125; 10]) => Some (mkStatus st sz wt ex)
-    | _ => None
-    end
-  | None => None
+Lemma experiment_acked sc cp :
+  o_acked (experiment sc cp) = Nat.leb (d_ack sc) (g_dn (g1of sc cp)).
+Proof.
+  destruct (recover (sc_types sc) (g_fs (g3of sc cp))) as [x4 v] eqn:E.
+  now rewrite (experiment_eq _ _ _ _ E).
+Qed.
+
+(* ---------- [holds] from its clauses ---------- *)
+Lemma beq_extra_refl e : beq_extra e e = true.
+Proof.
+  destruct e as [|p|n t u s]; simpl; [reflexivity|apply N.eqb_refl|].
+  rewrite !beq_bytes_refl. now destruct s.
+Qed.
+
+Lemma beq_status_refl s : beq_status s s = true.
+Proof. unfold beq_status. now rewrite !N.eqb_refl, beq_bytes_refl, beq_extra_refl. Qed.
+
+Lemma holds_intro sc cp :
+  let o := experiment sc cp in
+  (o_acked o = true ->
+   (v_listed (o_restart o) = true /\ s_wtype (v_status (o_restart o)) = sc_wtype sc /\
+    extra_ok sc (o_before o) (o_restart o) = true) /\
+   (forall b, o_before o = Some b -> st_complete (s_state b) = true ->
+      (s_state (v_status (o_restart o)) = s_state b /\ s_size (v_status (o_restart o)) = s_size b) /\
+      (s_state (v_status (o_final o)) = s_state b /\ s_size (v_status (o_final o)) = s_size b) /\
+      stdout_content (o_final_fs o) = sc_output sc) /\
+   (finished_before o = false -> producing sc cp o = true ->
+      st_complete (s_state (v_status (o_final o))) = true /\
+      s_size (v_status (o_final o)) = N.of_nat (length (sc_output sc)) /\
+      stdout_content (o_final_fs o) = sc_output sc) /\
+   (finished_before o = false -> producing sc cp o = false ->
+      s_state (v_status (o_final o)) = S_FAILED) /\
+   (st_complete (s_state (v_status (o_final o))) = true ->
+      v_status (o_again o) = v_status (o_final o) /\ v_known (o_again o) = v_known (o_final o))) ->
+  holds sc cp = true.
+Proof.
+  intros o H. unfold holds. fold o. destruct (o_acked o); [|reflexivity]. cbn [negb].
+  destruct (H eq_refl) as [[I1 [I2 I3]] [F [P [N A]]]].
+  unfold identity_ok. rewrite I1, I2, beq_bytes_refl, I3. cbn [andb].
+  apply andb_true_iff. split.
+  - destruct (finished_before o) eqn:Ef.
+    + unfold finished_before in Ef. destruct (o_before o) as [b|] eqn:Eb; [|discriminate].
+      destruct (F b eq_refl Ef) as [[R1 R2] [[F1 F2] O]].
+      unfold same_outcome. now rewrite R1, R2, F1, F2, O, !N.eqb_refl, beq_bytes_refl.
+    + destruct (producing sc cp o) eqn:Ep.
+      * destruct (P eq_refl eq_refl) as [C [S O]]. now rewrite C, S, O, N.eqb_refl, beq_bytes_refl.
+      * rewrite (N eq_refl eq_refl). reflexivity.
+  - destruct (st_complete (s_state (v_status (o_final o)))) eqn:Ec; [|reflexivity].
+    destruct (A eq_refl) as [A1 A2]. rewrite A1, A2, beq_status_refl. now destruct (v_known (o_final o)).
+Qed.
+
+Lemma grun_r_dn sc k : forall g, g_dn (grun sc g (repeat false k)) = g_dn g.
+Proof.
+  induction k as [|k IH]; intro g; [reflexivity|].
+  change (repeat false (S k)) with (false :: repeat false k). rewrite grun_cons, IH.
+  destruct (r_next sc g) as [op|] eqn:E.
+  - now destruct (gstep_r_progress _ _ _ E).
+  - now rewrite (gstep_r_idle _ _ E).
+Qed.
+
+Lemma kind_local sc : wf_scenario sc = true -> sc_remote sc = None ->
+  kind_of (sc_types sc) (sc_wtype sc) = KCmd.
+Proof.
+  unfold wf_scenario, is_remote, kind_of. intros H E. rewrite E in H.
+  apply andb_true_iff in H as [H1 H2]. apply negb_true_iff in H2. now rewrite H2, H1.
+Qed.
+
+Lemma kind_remote sc : wf_scenario sc = true -> sc_remote sc <> None ->
+  kind_of (sc_types sc) (sc_wtype sc) = KRemote.
+Proof.
+  unfold wf_scenario, is_remote, kind_of. intros H E.
+  destruct (sc_remote sc); [|congruence]. now rewrite H.
+Qed.
+
+Lemma record_of_intact x s : uf_status x = Some (encode s) -> record_of x = Some s.
+Proof. intro H. unfold record_of, status_content. now rewrite H, parse_encode. Qed.
+
+Lemma follow_intact x s m : uf_status x = Some (encode s) -> follow x m = s.
+Proof. intro H. unfold follow, status_content. now rewrite H, parse_encode. Qed.
+
+(* the state of affairs when the daemon comes back *)
+Record setup (sc : scenario) (cp : crashpoint) : Prop := mkSetup {
+  su_j2 : J sc true (g2of sc cp);
+  su_j3 : J sc true (g3of sc cp);
+  su_d3 : g_dalive (g3of sc cp) = false;
+  su_r3 : g_ralive (g3of sc cp) = true;
+  su_dn : g_dn (g3of sc cp) = g_dn (g2of sc cp);
+  su_rn : (g_rn (g2of sc cp) <= g_rn (g3of sc cp))%nat;
+  su_ack : (d_ack sc <= g_dn (g2of sc cp))%nat;
+  su_d2 : g_dalive (g2of sc cp) = false
+}.
+
+Lemma crash_setup sc cp :
+  cp_runner cp = false -> in_window sc cp = false ->
+  Nat.leb (d_ack sc) (g_dn (g1of sc cp)) = true -> setup sc cp.
+Proof.
+  intros Hr Hw Ha. apply Nat.leb_le in Ha.
+  assert (HJ1 : J sc true (g1of sc cp)) by (apply J_grun, J0).
+  destruct (grun_flags sc (cp_sched cp) (g0 sc)) as [_ Hra1].
+  assert (Hout : outside_window sc (g1of sc cp) (cp_cut cp)).
+  { unfold outside_window. unfold in_window in Hw. rewrite Hr in Hw. exact Hw. }
+  destruct (gcrash_daemon sc (g1of sc cp) (cp_cut cp) HJ1 Hra1 Ha Hout) as [HJ2 [Hd2 [Hr2 [Hn2 Hm2]]]].
+  assert (E2 : gcrash sc (g1of sc cp) false (cp_cut cp) = g2of sc cp) by (unfold g2of; now rewrite Hr).
+  rewrite E2 in *.
+  assert (E3 : g3of sc cp = grun sc (g2of sc cp) (repeat false (cp_gap cp))) by (unfold g3of; now rewrite Hr).
+  destruct (grun_flags sc (repeat false (cp_gap cp)) (g2of sc cp)) as [F1 F2].
+  destruct (grun_counters sc (repeat false (cp_gap cp)) (g2of sc cp)) as [_ C2].
+  constructor; rewrite ?E3; auto.
+  - now apply J_grun.
+  - congruence.
+  - congruence.
+  - apply grun_r_dn.
+  - lia.
+Qed.
+
+Lemma final_complete sc : st_complete (final_state sc) = true.
+Proof. unfold final_state. now destruct (sc_ok sc). Qed.
+
+Lemma final_not_pending sc : final_state sc =? S_PENDING = false.
+Proof. unfold final_state. now destruct (sc_ok sc). Qed.
+
+Lemma stdout_full sc : stdout_of_ops (firstn (length (r_prog sc)) (r_prog sc)) = sc_output sc.
+Proof.
+  rewrite firstn_all, r_prog_split, stdout_of_ops_app, r_body_stdout.
+  unfold stdout_of_ops, final_op. simpl. now rewrite app_nil_r.
+Qed.
+
+(* the record replaced by another acceptable one (recovery marking the unit failed) *)
+Lemma J_replace sc g r dm' rm' da ra :
+  J sc true g -> (2 <= g_dn g)%nat -> rec_ok sc false (g_dn g) (g_rn g) r ->
+  J sc false (mkG (with_status (g_fs g) (encode r)) dm' rm' (g_dn g) (g_rn g) da ra).
+Proof.
+  intros HJ Hn Hr. constructor; cbn [g_dn g_rn g_fs g_dmem]; try lia.
+  - intros _. cbn [with_status uf_dir]. apply (j_dir _ _ _ HJ). lia.
+  - exact (j_spawn _ _ _ HJ).
+  - exact (j_bound _ _ _ HJ).
+  - intros _. exists r. split; [reflexivity|exact Hr].
+  - cbn [with_status stdout_content uf_stdout]. exact (j_out _ _ _ HJ).
+Qed.
+
+(* the producer runs to its end after the restart: what is then on disk *)
+Lemma completes sc g4 :
+  J sc false g4 -> r_enabled sc g4 -> (2 <= g_dn g4)%nat ->
+  let g5 := grun sc g4 (rest_sched sc) in
+  exists s5, uf_status (g_fs g5) = Some (encode s5) /\ uf_dir (g_fs g5) = true /\
+             s_wtype s5 = sc_wtype sc /\ s_state s5 = final_state sc /\
+             s_size s5 = N.of_nat (length (sc_output sc)) /\
+             stdout_content (g_fs g5) = sc_output sc.
+Proof.
+  intros HJ He Hn. cbv zeta. unfold rest_sched.
+  destruct (grun_r_complete sc (length (r_prog sc)) g4 He (j_bound _ _ _ HJ) ltac:(lia)) as [Hm Hd].
+  pose proof (J_grun sc false (repeat false (length (r_prog sc))) g4 HJ) as HJ5.
+  set (g5 := grun sc g4 (repeat false (length (r_prog sc)))) in *.
+  destruct (j_rec _ _ _ HJ5 ltac:(lia)) as [s5 [Hs [R1 _ _ _ R5]]].
+  destruct (R5 Hm) as [F1 F2].
+  exists s5. repeat split; auto.
+  - apply (j_dir _ _ _ HJ5). lia.
+  - rewrite (j_out _ _ _ HJ5), Hm. apply stdout_full.
+Qed.
+
+Lemma same_record x a b : uf_status x = Some (encode a) -> uf_status x = Some (encode b) -> a = b.
+Proof.
+  intros Ha Hb. rewrite Ha in Hb. assert (E : encode a = encode b) by congruence.
+  apply (f_equal parse) in E. rewrite !parse_encode in E. congruence.
+Qed.
+
+Lemma recover_complete_local sc x s :
+  wf_scenario sc = true -> sc_remote sc = None ->
+  uf_dir x = true -> uf_status x = Some (encode s) -> s_wtype s = sc_wtype sc ->
+  st_complete (s_state s) = true ->
+  recover (sc_types sc) x = (locked x, mkView true true s false).
+Proof.
+  intros Hwf Hl Hd Hs Hw Hc. rewrite (recover_intact _ _ s Hd Hs), Hw, (kind_local sc Hwf Hl).
+  now rewrite Hc.
+Qed.
+
+Section Local.
+Variables (sc : scenario) (cp : crashpoint).
+Hypothesis Hwf : wf_scenario sc = true.
+Hypothesis Hloc : sc_remote sc = None.
+Hypothesis Hrun : cp_runner cp = false.
+Hypothesis SU : setup sc cp.
+
+Local Notation g2 := (g2of sc cp).
+Local Notation g3 := (g3of sc cp).
+Local Notation x3 := (g_fs (g3of sc cp)).
+
+Lemma L_rem : is_remote sc = false.
+Proof. unfold is_remote. now rewrite Hloc. Qed.
+
+Lemma L_n2 : (4 <= g_dn g2)%nat.
+Proof. pose proof (su_ack _ _ SU) as H. unfold d_ack in H. rewrite L_rem in H. exact H. Qed.
+
+Lemma L_n3 : (4 <= g_dn g3)%nat.
+Proof. rewrite (su_dn _ _ SU). exact L_n2. Qed.
+
+Lemma L_sp8 : d_spawn sc = 8%nat.
+Proof. unfold d_spawn. now rewrite L_rem. Qed.
+
+Lemma L_rec2 : exists s2, uf_status (g_fs g2) = Some (encode s2) /\ rec_ok sc true (g_dn g2) (g_rn g2) s2.
+Proof. apply (j_rec _ _ _ (su_j2 _ _ SU)). pose proof L_n2. lia. Qed.
+
+Lemma L_rec3 : exists s3, uf_status x3 = Some (encode s3) /\ rec_ok sc true (g_dn g3) (g_rn g3) s3.
+Proof. apply (j_rec _ _ _ (su_j3 _ _ SU)). pose proof L_n3. lia. Qed.
+
+Lemma L_dir3 : uf_dir x3 = true.
+Proof. apply (j_dir _ _ _ (su_j3 _ _ SU)). pose proof L_n3. lia. Qed.
+
+Lemma L_extra v : extra_ok sc (beforeof sc cp) v = true.
+Proof. unfold extra_ok. now rewrite Hloc. Qed.
+
+Lemma L_spawned3 : r_spawned sc g3 = r_spawned sc g2.
+Proof. unfold r_spawned. now rewrite (su_dn _ _ SU). Qed.
+
+(* a finished unit: nothing moves any more *)
+Lemma L_idle_finished g : g_rn g = length (r_prog sc) -> r_next sc g = None.
+Proof.
+  intro H. unfold r_next. destruct (negb (r_spawned sc g)); [reflexivity|].
+  assert (E : nth_error (r_prog sc) (g_rn g) = None) by (apply nth_error_None; lia).
+  rewrite E, L_rem. now destruct (g_ralive g).
+Qed.
+
+Lemma L_fin s2 : uf_status (g_fs g2) = Some (encode s2) -> rec_ok sc true (g_dn g2) (g_rn g2) s2 ->
+  st_complete (s_state s2) = true -> g3 = g2.
+Proof.
+  intros Hs [_ _ C _ _] Hc. unfold g3of. rewrite Hrun. apply grun_r_idle, L_idle_finished.
+  now apply C.
+Qed.
+
+Lemma L_idle5 x4 v : r_spawned sc g2 = false -> g5of sc cp x4 v = g4of sc cp x4 v.
+Proof.
+  intro Hns. unfold g5of. rewrite L_rem. cbn [andb]. apply grun_r_idle.
+  unfold r_next. assert (E : r_spawned sc (g4of sc cp x4 v) = false).
+  { unfold r_spawned, g4of. cbn [g_dn]. rewrite <- Hns. apply L_spawned3. }
+  now rewrite E.
+Qed.
+
+Lemma L_run5 x4 v : r_spawned sc g2 = true -> J sc false (g4of sc cp x4 v) ->
+  exists s5, uf_status (g_fs (g5of sc cp x4 v)) = Some (encode s5) /\
+             uf_dir (g_fs (g5of sc cp x4 v)) = true /\
+             s_wtype s5 = sc_wtype sc /\ s_state s5 = final_state sc /\
+             s_size s5 = N.of_nat (length (sc_output sc)) /\
+             stdout_content (g_fs (g5of sc cp x4 v)) = sc_output sc.
+Proof.
+  intros Hsp HJ4. unfold g5of. rewrite L_rem. cbn [andb]. apply completes; auto.
+  - split.
+    + unfold g4of. unfold r_spawned at 1. cbn [g_dn]. fold (r_spawned sc g3). now rewrite L_spawned3.
+    + rewrite L_rem. unfold g4of. cbn [g_ralive]. now rewrite (su_r3 _ _ SU), L_rem.
+  - unfold g4of. cbn [g_dn]. pose proof L_n3. lia.
+Qed.
+
+Lemma L_before s2 : uf_status (g_fs g2) = Some (encode s2) -> beforeof sc cp = Some s2.
+Proof. intro H. unfold beforeof. now rewrite (record_of_intact _ _ H). Qed.
+
+Lemma L_recover s3 : uf_status x3 = Some (encode s3) -> s_wtype s3 = sc_wtype sc ->
+  recover (sc_types sc) x3 =
+  if st_complete (s_state s3) then (locked x3, mkView true true s3 false)
+  else if s_state s3 =? S_PENDING
+       then (with_status x3 (encode (failed_rec x3 s3)), mkView true true (failed_rec x3 s3) true)
+       else (locked x3, mkView true true s3 true).
+Proof.
+  intros Hs Hw. rewrite (recover_intact _ _ s3 L_dir3 Hs), Hw, (kind_local sc Hwf Hloc). reflexivity.
+Qed.
+
+Lemma L_vf_unmon x4 s : vfof sc cp x4 (mkView true true s false) = mkView true true s false.
+Proof. unfold vfof. now rewrite L_rem. Qed.
+
+Lemma L_vf_mon x4 s : vfof sc cp x4 (mkView true true s true) =
+  mkView true true (follow (g_fs (g5of sc cp x4 (mkView true true s true))) s) true.
+Proof. unfold vfof. now rewrite L_rem. Qed.
+
+Lemma L_producing o : producing sc cp o = o_spawned o.
+Proof. unfold producing. rewrite L_rem, Hrun. cbn [negb]. apply andb_true_r. Qed.
+
+(* case 1: the record found at the restart is a finished one *)
+Lemma L_case_complete s2 s3 :
+  uf_status (g_fs g2) = Some (encode s2) -> rec_ok sc true (g_dn g2) (g_rn g2) s2 ->
+  uf_status x3 = Some (encode s3) -> rec_ok sc true (g_dn g3) (g_rn g3) s3 ->
+  st_complete (s_state s3) = true ->
+  let o := experiment sc cp in
+  (v_listed (o_restart o) = true /\ s_wtype (v_status (o_restart o)) = sc_wtype sc /\
+   extra_ok sc (o_before o) (o_restart o) = true) /\
+  (forall b, o_before o = Some b -> st_complete (s_state b) = true ->
+     (s_state (v_status (o_restart o)) = s_state b /\ s_size (v_status (o_restart o)) = s_size b) /\
+     (s_state (v_status (o_final o)) = s_state b /\ s_size (v_status (o_final o)) = s_size b) /\
+     stdout_content (o_final_fs o) = sc_output sc) /\
+  (finished_before o = false -> producing sc cp o = true ->
+     st_complete (s_state (v_status (o_final o))) = true /\
+     s_size (v_status (o_final o)) = N.of_nat (length (sc_output sc)) /\
+     stdout_content (o_final_fs o) = sc_output sc) /\
+  (finished_before o = false -> producing sc cp o = false ->
+     s_state (v_status (o_final o)) = S_FAILED) /\
+  (st_complete (s_state (v_status (o_final o))) = true ->
+     v_status (o_again o) = v_status (o_final o) /\ v_known (o_again o) = v_known (o_final o)).
+Proof.
+  intros Hs2 R2 Hs3 R3 Ec3. cbv zeta.
+  pose proof (L_recover s3 Hs3 (ro_wtype _ _ _ _ _ R3)) as Hrec. rewrite Ec3 in Hrec.
+  rewrite (experiment_eq _ _ _ _ Hrec).
+  cbn [o_acked o_before o_restart o_final o_final_fs o_again o_spawned].
+  pose proof (ro_complete _ _ _ _ _ R3 eq_refl Ec3) as Hm3.
+  destruct (ro_final _ _ _ _ _ R3 Hm3) as [Fs Fz].
+  assert (E5 : g5of sc cp (locked x3) (mkView true true s3 false) = g4of sc cp (locked x3) (mkView true true s3 false)).
+  { unfold g5of. rewrite L_rem. cbn [andb]. apply grun_r_idle, L_idle_finished.
+    unfold g4of. cbn [g_rn]. exact Hm3. }
+  rewrite L_vf_unmon, E5. unfold g4of. cbn [g_fs v_status v_listed v_known].
+  assert (Hout : stdout_content (locked x3) = sc_output sc).
+  { change (stdout_content (locked x3)) with (stdout_content x3).
+    rewrite (j_out _ _ _ (su_j3 _ _ SU)), Hm3. apply stdout_full. }
+  assert (Hagain : recover (sc_types sc) (locked x3) = (locked (locked x3), mkView true true s3 false)).
+  { apply recover_complete_local; auto. apply L_dir3. apply (ro_wtype _ _ _ _ _ R3). }
+  rewrite Hagain. cbn [snd v_status v_known].
+  split; [split; [reflexivity|split; [apply (ro_wtype _ _ _ _ _ R3)|apply L_extra]]|].
+  split; [|split; [|split; [|auto]]].
+  - intros b Hb Hcb. rewrite (L_before s2 Hs2) in Hb. inversion Hb; subst b.
+    pose proof (L_fin s2 Hs2 R2 Hcb) as E32. rewrite E32 in Hs3.
+    assert (s3 = s2) by (apply (same_record _ _ _ Hs3 Hs2)). subst s3. auto.
+  - intros _ _. rewrite Ec3, Fz. auto.
+  - intros _ Hnp. exfalso. rewrite L_producing in Hnp. cbn [o_spawned] in Hnp.
+    rewrite <- L_spawned3 in Hnp.
+    pose proof (j_spawn _ _ _ (su_j3 _ _ SU)) as Hs.
+    unfold r_spawned in Hnp. apply Nat.leb_gt in Hnp. pose proof (r_prog_pos sc). lia.
+Qed.
+
+(* if the record found at the restart is not a finished one, the unit had not finished before *)
+Lemma L_not_finished s2 s3 :
+  uf_status (g_fs g2) = Some (encode s2) -> rec_ok sc true (g_dn g2) (g_rn g2) s2 ->
+  uf_status x3 = Some (encode s3) -> st_complete (s_state s3) = false ->
+  st_complete (s_state s2) = false.
+Proof.
+  intros Hs2 R2 Hs3 Ec3. destruct (st_complete (s_state s2)) eqn:E; [|reflexivity].
+  pose proof (L_fin s2 Hs2 R2 E) as E32. rewrite E32 in Hs3.
+  assert (s3 = s2) by (apply (same_record _ _ _ Hs3 Hs2)). subst s3. congruence.
+Qed.
+
+(* case 2: Pending at the restart — marked failed, and followed if a runner lives *)
+Lemma L_case_pending s2 s3 :
+  uf_status (g_fs g2) = Some (encode s2) -> rec_ok sc true (g_dn g2) (g_rn g2) s2 ->
+  uf_status x3 = Some (encode s3) -> rec_ok sc true (g_dn g3) (g_rn g3) s3 ->
+  st_complete (s_state s3) = false -> (s_state s3 =? S_PENDING) = true ->
+  let o := experiment sc cp in
+  (v_listed (o_restart o) = true /\ s_wtype (v_status (o_restart o)) = sc_wtype sc /\
+   extra_ok sc (o_before o) (o_restart o) = true) /\
+  (forall b, o_before o = Some b -> st_complete (s_state b) = true ->
+     (s_state (v_status (o_restart o)) = s_state b /\ s_size (v_status (o_restart o)) = s_size b) /\
+     (s_state (v_status (o_final o)) = s_state b /\ s_size (v_status (o_final o)) = s_size b) /\
+     stdout_content (o_final_fs o) = sc_output sc) /\
+  (finished_before o = false -> producing sc cp o = true ->
+     st_complete (s_state (v_status (o_final o))) = true /\
+     s_size (v_status (o_final o)) = N.of_nat (length (sc_output sc)) /\
+     stdout_content (o_final_fs o) = sc_output sc) /\
+  (finished_before o = false -> producing sc cp o = false ->
+     s_state (v_status (o_final o)) = S_FAILED) /\
+  (st_complete (s_state (v_status (o_final o))) = true ->
+     v_status (o_again o) = v_status (o_final o) /\ v_known (o_again o) = v_known (o_final o)).
+Proof.
+  intros Hs2 R2 Hs3 R3 Ec3 Ep3. cbv zeta.
+  pose proof (L_recover s3 Hs3 (ro_wtype _ _ _ _ _ R3)) as Hrec. rewrite Ec3, Ep3 in Hrec.
+  set (fr := failed_rec x3 s3) in *.
+  rewrite (experiment_eq _ _ _ _ Hrec).
+  cbn [o_acked o_before o_restart o_final o_final_fs o_again o_spawned].
+  pose proof (L_not_finished s2 s3 Hs2 R2 Hs3 Ec3) as Hnf2.
+  assert (HJ4 : J sc false (g4of sc cp (with_status x3 (encode fr)) (mkView true true fr true))).
+  { unfold g4of. apply (J_replace sc g3); [exact (su_j3 _ _ SU)|pose proof L_n3; lia|].
+    destruct R3 as [W3 X3 C3 P3 F3].
+    constructor; unfold fr, failed_rec; cbn [s_wtype s_extra s_state s_size]; auto; try discriminate.
+    intro Hm. destruct (F3 Hm) as [Fs _]. rewrite Fs, final_not_pending in Ep3. discriminate. }
+  rewrite L_vf_mon. cbn [v_status v_listed v_known].
+  split; [split; [reflexivity|split; [apply (ro_wtype _ _ _ _ _ R3)|apply L_extra]]|].
+  split; [|split; [|split]].
+  - intros b Hb Hcb. rewrite (L_before s2 Hs2) in Hb. inversion Hb; subst b. congruence.
+  - intros _ Hp. rewrite L_producing in Hp. cbn [o_spawned] in Hp.
+    destruct (L_run5 _ _ Hp HJ4) as [s5 [H5 [D5 [W5 [S5 [Z5 O5]]]]]].
+    rewrite (follow_intact _ _ _ H5), S5, Z5. repeat split; auto. apply final_complete.
+  - intros _ Hp. rewrite L_producing in Hp. cbn [o_spawned] in Hp.
+    rewrite (L_idle5 _ _ Hp). unfold g4of. cbn [g_fs]. now rewrite (follow_intact _ fr).
+  - intro Hc. destruct (r_spawned sc g2) eqn:Hsp.
+    + destruct (L_run5 _ _ Hsp HJ4) as [s5 [H5 [D5 [W5 [S5 [Z5 O5]]]]]].
+      rewrite (follow_intact _ _ _ H5).
+      rewrite (recover_complete_local sc _ s5 Hwf Hloc D5 H5 W5); [auto|].
+      rewrite S5. apply final_complete.
+    + rewrite (L_idle5 _ _ Hsp). unfold g4of. cbn [g_fs]. rewrite (follow_intact _ fr) by reflexivity.
+      rewrite (recover_complete_local sc _ fr Hwf Hloc); auto.
+      * apply L_dir3.
+      * apply (ro_wtype _ _ _ _ _ R3).
+Qed.
+
+(* case 3: Running at the restart — followed to the runner's last record *)
+Lemma L_case_running s2 s3 :
+  uf_status (g_fs g2) = Some (encode s2) -> rec_ok sc true (g_dn g2) (g_rn g2) s2 ->
+  uf_status x3 = Some (encode s3) -> rec_ok sc true (g_dn g3) (g_rn g3) s3 ->
+  st_complete (s_state s3) = false -> (s_state s3 =? S_PENDING) = false ->
+  let o := experiment sc cp in
+  (v_listed (o_restart o) = true /\ s_wtype (v_status (o_restart o)) = sc_wtype sc /\
+   extra_ok sc (o_before o) (o_restart o) = true) /\
+  (forall b, o_before o = Some b -> st_complete (s_state b) = true ->
+     (s_state (v_status (o_restart o)) = s_state b /\ s_size (v_status (o_restart o)) = s_size b) /\
+     (s_state (v_status (o_final o)) = s_state b /\ s_size (v_status (o_final o)) = s_size b) /\
+     stdout_content (o_final_fs o) = sc_output sc) /\
+  (finished_before o = false -> producing sc cp o = true ->
+     st_complete (s_state (v_status (o_final o))) = true /\
+     s_size (v_status (o_final o)) = N.of_nat (length (sc_output sc)) /\
+     stdout_content (o_final_fs o) = sc_output sc) /\
+  (finished_before o = false -> producing sc cp o = false ->
+     s_state (v_status (o_final o)) = S_FAILED) /\
+  (st_complete (s_state (v_status (o_final o))) = true ->
+     v_status (o_again o) = v_status (o_final o) /\ v_known (o_again o) = v_known (o_final o)).
+Proof.
+  intros Hs2 R2 Hs3 R3 Ec3 Ep3. cbv zeta.
+  pose proof (L_recover s3 Hs3 (ro_wtype _ _ _ _ _ R3)) as Hrec. rewrite Ec3, Ep3 in Hrec.
+  rewrite (experiment_eq _ _ _ _ Hrec).
+  cbn [o_acked o_before o_restart o_final o_final_fs o_again o_spawned].
+  pose proof (L_not_finished s2 s3 Hs2 R2 Hs3 Ec3) as Hnf2.
+  (* a record that is neither Pending nor finished exists only once the runner has run *)
+  assert (Hsp : r_spawned sc g2 = true).
+  { destruct (r_spawned sc g2) eqn:H; [reflexivity|exfalso].
+    rewrite <- L_spawned3 in H. unfold r_spawned in H. apply Nat.leb_gt in H.
+    assert (Hm0 : g_rn g3 = 0%nat).
+    { destruct (g_rn g3) eqn:E; [reflexivity|].
+      pose proof (j_spawn _ _ _ (su_j3 _ _ SU)) as Hs. rewrite E in Hs. lia. }
+    rewrite (ro_pending _ _ _ _ _ R3 eq_refl Hm0) in Ep3. discriminate. }
+  assert (HJ4 : J sc false (g4of sc cp (locked x3) (mkView true true s3 true))).
+  { unfold g4of. apply J_weaken. apply (J_core sc true g3); [exact (su_j3 _ _ SU)|reflexivity|].
+    intro. pose proof L_n3. lia. }
+  rewrite L_vf_mon. cbn [v_status v_listed v_known].
+  destruct (L_run5 _ _ Hsp HJ4) as [s5 [H5 [D5 [W5 [S5 [Z5 O5]]]]]].
+  rewrite (follow_intact _ _ _ H5).
+  split; [split; [reflexivity|split; [apply (ro_wtype _ _ _ _ _ R3)|apply L_extra]]|].
+  split; [|split; [|split]].
+  - intros b Hb Hcb. rewrite (L_before s2 Hs2) in Hb. inversion Hb; subst b. congruence.
+  - intros _ _. rewrite S5, Z5. repeat split; auto. apply final_complete.
+  - intros _ Hp. rewrite L_producing in Hp. cbn [o_spawned] in Hp. congruence.
+  - intros _. rewrite (recover_complete_local sc _ s5 Hwf Hloc D5 H5 W5); [auto|].
+    rewrite S5. apply final_complete.
+Qed.
+
+Lemma L_all :
+  let o := experiment sc cp in
+  (v_listed (o_restart o) = true /\ s_wtype (v_status (o_restart o)) = sc_wtype sc /\
+   extra_ok sc (o_before o) (o_restart o) = true) /\
+  (forall b, o_before o = Some b -> st_complete (s_state b) = true ->
+     (s_state (v_status (o_restart o)) = s_state b /\ s_size (v_status (o_restart o)) = s_size b) /\
+     (s_state (v_status (o_final o)) = s_state b /\ s_size (v_status (o_final o)) = s_size b) /\
+     stdout_content (o_final_fs o) = sc_output sc) /\
+  (finished_before o = false -> producing sc cp o = true ->
+     st_complete (s_state (v_status (o_final o))) = true /\
+     s_size (v_status (o_final o)) = N.of_nat (length (sc_output sc)) /\
+     stdout_content (o_final_fs o) = sc_output sc) /\
+  (finished_before o = false -> producing sc cp o = false ->
+     s_state (v_status (o_final o)) = S_FAILED) /\
+  (st_complete (s_state (v_status (o_final o))) = true ->
+     v_status (o_again o) = v_status (o_final o) /\ v_known (o_again o) = v_known (o_final o)).
+Proof.
+  destruct L_rec2 as [s2 [Hs2 R2]]. destruct L_rec3 as [s3 [Hs3 R3]].
+  destruct (st_complete (s_state s3)) eqn:Ec3.
+  - now apply (L_case_complete s2 s3).
+  - destruct (s_state s3 =? S_PENDING) eqn:Ep3.
+    + now apply (L_case_pending s2 s3).
+    + now apply (L_case_running s2 s3).
+Qed.
+
+End Local.
+
+Theorem partial_local sc cp :
+  wf_scenario sc = true -> sc_remote sc = None ->
+  cp_runner cp = false -> in_window sc cp = false -> holds sc cp = true.
+Proof.
+  intros Hwf Hloc Hrun Hwin. apply holds_intro. cbv zeta. intro Hack.
+  rewrite experiment_acked in Hack.
+  apply (L_all sc cp Hwf Hloc Hrun (crash_setup sc cp Hrun Hwin Hack)).
+Qed.
+
+(* the producer runs to its end, with the binding of the record it leaves *)
+Lemma completes_ext sc g4 :
+  J sc false g4 -> r_enabled sc g4 -> (2 <= g_dn g4)%nat ->
+  let g5 := grun sc g4 (rest_sched sc) in
+  exists s5, uf_status (g_fs g5) = Some (encode s5) /\ uf_dir (g_fs g5) = true /\
+             s_wtype s5 = sc_wtype sc /\ s_state s5 = final_state sc /\
+             s_size s5 = N.of_nat (length (sc_output sc)) /\
+             stdout_content (g_fs g5) = sc_output sc /\ ext_ok sc (g_dn g4) (s_extra s5).
+Proof.
+  intros HJ He Hn. cbv zeta. unfold rest_sched.
+  destruct (grun_r_complete sc (length (r_prog sc)) g4 He (j_bound _ _ _ HJ) ltac:(lia)) as [Hm Hd].
+  pose proof (J_grun sc false (repeat false (length (r_prog sc))) g4 HJ) as HJ5.
+  set (g5 := grun sc g4 (repeat false (length (r_prog sc)))) in *.
+  destruct (j_rec _ _ _ HJ5 ltac:(lia)) as [s5 [Hs [R1 R2 _ _ R5]]].
+  destruct (R5 Hm) as [F1 F2].
+  exists s5. repeat split; auto.
+  - apply (j_dir _ _ _ HJ5). lia.
+  - rewrite (j_out _ _ _ HJ5), Hm. apply stdout_full.
+  - now rewrite <- Hd.
+Qed.
+
+Section Remote.
+Variables (sc : scenario) (cp : crashpoint) (node rtype : bytes).
+Hypothesis Hwf : wf_scenario sc = true.
+Hypothesis Hrem : sc_remote sc = Some (node, rtype).
+Hypothesis Hrun : cp_runner cp = false.
+Hypothesis SU : setup sc cp.
+
+Local Notation g2 := (g2of sc cp).
+Local Notation g3 := (g3of sc cp).
+Local Notation x2 := (g_fs (g2of sc cp)).
+
+Lemma R_rem : is_remote sc = true.
+Proof. unfold is_remote. now rewrite Hrem. Qed.
+
+Lemma R_ne : sc_remote sc <> None.
+Proof. rewrite Hrem. discriminate. Qed.
+
+Lemma R_n2 : (5 <= g_dn g2)%nat.
+Proof. pose proof (su_ack _ _ SU) as H. unfold d_ack in H. rewrite R_rem in H. exact H. Qed.
+
+Lemma R_sp9 : d_spawn sc = 9%nat.
+Proof. unfold d_spawn. now rewrite R_rem. Qed.
+
+(* with the daemon dead nobody mirrors: nothing moves while the node is down *)
+Lemma R_g3 : g3 = g2.
+Proof.
+  unfold g3of. rewrite Hrun. apply grun_r_idle. unfold r_next.
+  destruct (negb (r_spawned sc g2)); [reflexivity|]. now rewrite R_rem, (su_d2 _ _ SU).
+Qed.
+
+Lemma R_rec2 : exists s2, uf_status x2 = Some (encode s2) /\ rec_ok sc true (g_dn g2) (g_rn g2) s2.
+Proof. apply (j_rec _ _ _ (su_j2 _ _ SU)). pose proof R_n2. lia. Qed.
+
+Lemma R_dir2 : uf_dir x2 = true.
+Proof. apply (j_dir _ _ _ (su_j2 _ _ SU)). pose proof R_n2. lia. Qed.
+
+Lemma R_ext s n : ext_ok sc n (s_extra s) -> (3 <= n)%nat ->
+  exists ru st, s_extra s = XRemote node rtype ru st /\ (st = true <-> (9 <= n)%nat).
+Proof.
+  unfold ext_ok. rewrite Hrem. intros [nd [rt [ru [st [E [B S]]]]]] Hn.
+  destruct (B Hn) as [-> ->]. now exists ru, st.
+Qed.
+
+Lemma R_extra_ok s2 v : ext_ok sc (g_dn g2) (s_extra s2) -> s_extra (v_status v) = s_extra s2 ->
+  extra_ok sc (Some s2) v = true.
+Proof.
+  intros Hx Hv. destruct (R_ext s2 _ Hx ltac:(pose proof R_n2; lia)) as [ru [st [E _]]].
+  unfold extra_ok. rewrite Hrem, Hv, E, !beq_bytes_refl. cbn [andb].
+  destruct ru; [reflexivity|apply beq_bytes_refl].
+Qed.
+
+Lemma R_before s2 : uf_status x2 = Some (encode s2) -> beforeof sc cp = Some s2.
+Proof. intro H. unfold beforeof. now rewrite (record_of_intact _ _ H). Qed.
+
+Lemma R_recover s2 : uf_status x2 = Some (encode s2) -> s_wtype s2 = sc_wtype sc ->
+  recover (sc_types sc) (g_fs g3) =
+  if started s2 then (locked x2, mkView true true s2 true)
+  else (with_status x2 (encode (failed_rec x2 s2)), mkView true true (failed_rec x2 s2) false).
+Proof.
+  intros Hs Hw. rewrite R_g3, (recover_intact _ _ s2 R_dir2 Hs), Hw, (kind_remote sc Hwf R_ne). reflexivity.
+Qed.
+
+Lemma R_producing o : producing sc cp o = match o_before o with Some b => started b | None => false end.
+Proof. unfold producing. now rewrite R_rem. Qed.
+
+Lemma R_started s n : ext_ok sc n (s_extra s) -> (3 <= n)%nat -> (started s = true <-> (9 <= n)%nat).
+Proof.
+  intros Hx Hn. destruct (R_ext s n Hx Hn) as [ru [st [E S]]]. unfold started. now rewrite E.
+Qed.
+
+Definition clauses (o : outcome) : Prop :=
+  (v_listed (o_restart o) = true /\ s_wtype (v_status (o_restart o)) = sc_wtype sc /\
+   extra_ok sc (o_before o) (o_restart o) = true) /\
+  (forall b, o_before o = Some b -> st_complete (s_state b) = true ->
+     (s_state (v_status (o_restart o)) = s_state b /\ s_size (v_status (o_restart o)) = s_size b) /\
+     (s_state (v_status (o_final o)) = s_state b /\ s_size (v_status (o_final o)) = s_size b) /\
+     stdout_content (o_final_fs o) = sc_output sc) /\
+  (finished_before o = false -> producing sc cp o = true ->
+     st_complete (s_state (v_status (o_final o))) = true /\
+     s_size (v_status (o_final o)) = N.of_nat (length (sc_output sc)) /\
+     stdout_content (o_final_fs o) = sc_output sc) /\
+  (finished_before o = false -> producing sc cp o = false ->
+     s_state (v_status (o_final o)) = S_FAILED) /\
+  (st_complete (s_state (v_status (o_final o))) = true ->
+     v_status (o_again o) = v_status (o_final o) /\ v_known (o_again o) = v_known (o_final o)).
+
+(* the remote unit had not been recorded as started: failed, for good *)
+Lemma R_case_unstarted s2 :
+  uf_status x2 = Some (encode s2) -> rec_ok sc true (g_dn g2) (g_rn g2) s2 ->
+  started s2 = false -> clauses (experiment sc cp).
+Proof.
+  intros Hs2 R2 Hst. unfold clauses.
+  pose proof (R_recover s2 Hs2 (ro_wtype _ _ _ _ _ R2)) as Hrec. rewrite Hst in Hrec.
+  set (fr := failed_rec x2 s2) in *.
+  rewrite (experiment_eq _ _ _ _ Hrec).
+  cbn [o_acked o_before o_restart o_final o_final_fs o_again o_spawned].
+  rewrite (R_before s2 Hs2).
+  assert (E5 : g5of sc cp (with_status x2 (encode fr)) (mkView true true fr false) =
+               g4of sc cp (with_status x2 (encode fr)) (mkView true true fr false))
+    by (unfold g5of; now rewrite R_rem).
+  assert (Evf : vfof sc cp (with_status x2 (encode fr)) (mkView true true fr false) = mkView true true fr false)
+    by (unfold vfof; now rewrite R_rem).
+  rewrite Evf, E5. unfold g4of. cbn [g_fs v_status v_listed v_known].
+  (* not started: the mirror has never run, the record says Pending *)
+  assert (Hn9 : (g_dn g2 < 9)%nat).
+  { destruct (R_started s2 _ (ro_ext _ _ _ _ _ R2) ltac:(pose proof R_n2; lia)) as [_ H].
+    destruct (Nat.lt_ge_cases (g_dn g2) 9) as [L|L]; [exact L|]. rewrite (H L) in Hst. discriminate. }
+  assert (Hm0 : g_rn g2 = 0%nat).
+  { destruct (g_rn g2) eqn:E; [reflexivity|].
+    pose proof (j_spawn _ _ _ (su_j2 _ _ SU)) as Hs. rewrite E, R_sp9 in Hs. lia. }
+  pose proof (ro_pending _ _ _ _ _ R2 eq_refl Hm0) as Hp.
+  split; [split; [reflexivity|split; [apply (ro_wtype _ _ _ _ _ R2)|]]|].
+  { apply R_extra_ok; [apply (ro_ext _ _ _ _ _ R2)|reflexivity]. }
+  split; [|split; [|split]].
+  - intros b Hb Hcb. inversion Hb; subst b. rewrite Hp in Hcb. discriminate.
+  - intros _ Hpr. rewrite R_producing in Hpr. cbn [o_before] in Hpr. congruence.
+  - intros _ _. reflexivity.
+  - intros _.
+    assert (Hs4 : uf_status (with_status x2 (encode fr)) = Some (encode fr)) by reflexivity.
+    rewrite (recover_intact _ (with_status x2 (encode fr)) fr R_dir2 Hs4).
+    assert (Hw : s_wtype fr = sc_wtype sc) by apply (ro_wtype _ _ _ _ _ R2).
+    rewrite Hw, (kind_remote sc Hwf R_ne).
+    assert (Hsf : started fr = false) by exact Hst. rewrite Hsf. cbn [snd v_status v_known].
+    split; reflexivity.
+Qed.
+
+(* recorded as started: mirrored again, to the end *)
+Lemma R_case_started s2 :
+  uf_status x2 = Some (encode s2) -> rec_ok sc true (g_dn g2) (g_rn g2) s2 ->
+  started s2 = true -> clauses (experiment sc cp).
+Proof.
+  intros Hs2 R2 Hst. unfold clauses.
+  pose proof (R_recover s2 Hs2 (ro_wtype _ _ _ _ _ R2)) as Hrec. rewrite Hst in Hrec.
+  rewrite (experiment_eq _ _ _ _ Hrec).
+  cbn [o_acked o_before o_restart o_final o_final_fs o_again o_spawned].
+  rewrite (R_before s2 Hs2).
+  assert (Hn9 : (9 <= g_dn g2)%nat)
+    by (apply (R_started s2 _ (ro_ext _ _ _ _ _ R2) ltac:(pose proof R_n2; lia)); exact Hst).
+  set (v := mkView true true s2 true).
+  assert (E5 : g5of sc cp (locked x2) v = grun sc (g4of sc cp (locked x2) v) (rest_sched sc))
+    by (unfold g5of, v; now rewrite R_rem).
+  assert (Evf : vfof sc cp (locked x2) v = mkView true true (follow (g_fs (g5of sc cp (locked x2) v)) s2) true)
+    by (unfold vfof, v; now rewrite R_rem).
+  rewrite Evf. cbn [v_status v_listed v_known].
+  assert (HJ4 : J sc true (g4of sc cp (locked x2) v)).
+  { unfold g4of. rewrite R_g3. apply (J_core sc true g2); [exact (su_j2 _ _ SU)|reflexivity|].
+    intro. lia. }
+  assert (He4 : r_enabled sc (g4of sc cp (locked x2) v)).
+  { split.
+    - unfold r_spawned, g4of. cbn [g_dn]. rewrite R_g3, R_sp9. now apply Nat.leb_le.
+    - rewrite R_rem. unfold g4of, v. cbn [g_dalive v_monitored]. now rewrite R_rem. }
+  split; [split; [reflexivity|split; [apply (ro_wtype _ _ _ _ _ R2)|]]|].
+  { apply R_extra_ok; [apply (ro_ext _ _ _ _ _ R2)|reflexivity]. }
+  destruct (st_complete (s_state s2)) eqn:Ec.
+  - (* finished already: the mirror has nothing left to do *)
+    pose proof (ro_complete _ _ _ _ _ R2 eq_refl Ec) as Hm.
+    assert (Eidle : g5of sc cp (locked x2) v = g4of sc cp (locked x2) v).
+    { rewrite E5. apply grun_r_idle. unfold r_next.
+      destruct (negb (r_spawned sc (g4of sc cp (locked x2) v))); [reflexivity|].
+      assert (En : nth_error (r_prog sc) (g_rn (g4of sc cp (locked x2) v)) = None).
+      { apply nth_error_None. unfold g4of. cbn [g_rn]. rewrite R_g3. lia. }
+      rewrite En, R_rem. now destruct (g_dalive (g4of sc cp (locked x2) v)). }
+    rewrite Eidle. unfold g4of. cbn [g_fs].
+    assert (Hsl : uf_status (locked x2) = Some (encode s2)) by exact Hs2.
+    rewrite (follow_intact _ _ _ Hsl).
+    assert (Hout : stdout_content (locked x2) = sc_output sc).
+    { change (stdout_content (locked x2)) with (stdout_content x2).
+      rewrite (j_out _ _ _ (su_j2 _ _ SU)), Hm. apply stdout_full. }
+    split; [|split; [|split]].
+    + intros b Hb _. inversion Hb; subst b. auto.
+    + intros Hnf _. unfold finished_before in Hnf. cbn [o_before] in Hnf. congruence.
+    + intros _ Hpr. rewrite R_producing in Hpr. cbn [o_before] in Hpr. congruence.
+    + intros _. rewrite (recover_intact _ (locked x2) s2 R_dir2 Hsl), (ro_wtype _ _ _ _ _ R2), (kind_remote sc Hwf R_ne), Hst.
+      cbn [snd v_status v_known]. split; reflexivity.
+  - (* still being produced on the remote node: followed to the end *)
+    destruct (completes_ext sc _ (J_weaken _ _ HJ4) He4 ltac:(unfold g4of; cbn [g_dn]; rewrite R_g3; lia))
+      as [s5 [H5 [D5 [W5 [S5 [Z5 [O5 X5]]]]]]].
+    rewrite <- E5 in *. rewrite (follow_intact _ _ _ H5).
+    split; [|split; [|split]].
+    + intros b Hb Hcb. inversion Hb; subst b. congruence.
+    + intros _ _. rewrite S5, Z5. repeat split; auto. apply final_complete.
+    + intros _ Hpr. rewrite R_producing in Hpr. cbn [o_before] in Hpr. congruence.
+    + intros _. rewrite (recover_intact _ _ s5 D5 H5), W5, (kind_remote sc Hwf R_ne).
+      assert (Hst5 : started s5 = true).
+      { apply (R_started s5 _ X5); unfold g4of; cbn [g_dn]; rewrite R_g3; lia. }
+      rewrite Hst5. cbn [snd v_status v_known]. split; reflexivity.
+Qed.
+
+Lemma R_all : clauses (experiment sc cp).
+Proof.
+  destruct R_rec2 as [s2 [Hs2 R2]]. destruct (started s2) eqn:E.
+  - now apply (R_case_started s2).
+  - now apply (R_case_unstarted s2).
+Qed.
+
+End Remote.
+
+Theorem partial_remote sc cp node rtype :
+  wf_scenario sc = true -> sc_remote sc = Some (node, rtype) ->
+  cp_runner cp = false -> in_window sc cp = false -> holds sc cp = true.
+Proof.
+  intros Hwf Hrem Hrun Hwin. apply holds_intro. cbv zeta. intro Hack.
+  rewrite experiment_acked in Hack.
+  apply (R_all sc cp node rtype Hwf Hrem Hrun (crash_setup sc cp Hrun Hwin Hack)).
+Qed.
+
+(* C04_partial: every crash point of the daemon outside the truncate->write windows *)
+Theorem C04_partial_thm : forall sc cp,
+  wf_scenario sc = true -> cp_runner cp = false -> in_window sc cp = false -> holds sc cp = true.
+Proof.
+  intros sc cp Hwf Hrun Hwin. destruct (sc_remote sc) as [[node rtype]|] eqn:E.
+  - now apply (partial_remote sc cp node rtype).
+  - now apply partial_local.
+Qed.
+
+(* ---------- repeated crash/restart cycles of a unit at rest ---------- *)
+(* k restarts in a row (the daemon killed again each time, nothing else touching the unit) *)
+Fixpoint cycles (types : list bytes) (x : ufiles) (k : nat) : ufiles :=
+  match k with
+  | O => x
+  | S k' => fst (recover types (cycles types x k'))
   end.
+
+Definition same_answer (a b : view) : Prop :=
+  v_listed a = v_listed b /\ v_known a = v_known b /\ v_status a = v_status b.
+
+Definition has_record (x : ufiles) : Prop := uf_dir x = true /\ exists s, uf_status x = Some (encode s).
+
+Lemma failed_rec_idem x c s : failed_rec (with_status x c) (failed_rec x s) = failed_rec x s.
 Proof. reflexivity. Qed.
 
-Theorem parse_encode : forall s, parse (encode s) = Some s.
+(* one restart of a unit with an intact record leaves an intact record, and a second restart
+   answers what the first one answered *)
+Lemma recover_stable types x : has_record x ->
+  has_record (fst (recover types x)) /\
+  same_answer (snd (recover types (fst (recover types x)))) (snd (recover types x)).
 Proof.
-  intros [st sz wt ex]. unfold encode. cbn [s_state s_size s_wtype s_extra].
-  change ([123; st; sz] ++ ?x) with (123 :: st :: sz :: x).
-  rewrite parse_123, take_bytes_enc, dec_extra_enc. reflexivity.
+  intros [Hd [s Hs]]. rewrite (recover_intact types x s Hd Hs).
+  assert (Hl : uf_status (locked x) = Some (encode s)) by exact Hs.
+  assert (Hf : forall r, uf_status (with_status x (encode r)) = Some (encode r)) by reflexivity.
+  destruct (kind_of types (s_wtype s)) eqn:Ek.
+  - cbn [fst snd]. split; [split; [exact Hd|now exists s]|].
+    rewrite (recover_intact types (locked x) s Hd Hl), Ek. repeat split.
+  - destruct (st_complete (s_state s)) eqn:Ec.
+    + cbn [fst snd]. split; [split; [exact Hd|now exists s]|].
+      rewrite (recover_intact types (locked x) s Hd Hl), Ek, Ec. repeat split.
+    + destruct (s_state s =? S_PENDING) eqn:Ep; cbn [fst snd].
+      * split; [split; [exact Hd|eexists; apply Hf]|].
+        rewrite (recover_intact types (with_status x (encode (failed_rec x s))) (failed_rec x s) Hd (Hf _)).
+        change (s_wtype (failed_rec x s)) with (s_wtype s). rewrite Ek.
+        change (st_complete (s_state (failed_rec x s))) with true. repeat split.
+      * split; [split; [exact Hd|now exists s]|].
+        rewrite (recover_intact types (locked x) s Hd Hl), Ek, Ec, Ep. repeat split.
+  - destruct (started s) eqn:Est; cbn [fst snd].
+    + split; [split; [exact Hd|now exists s]|].
+      rewrite (recover_intact types (locked x) s Hd Hl), Ek, Est. repeat split.
+    + split; [split; [exact Hd|eexists; apply Hf]|].
+      rewrite (recover_intact types (with_status x (encode (failed_rec x s))) (failed_rec x s) Hd (Hf _)).
+      change (s_wtype (failed_rec x s)) with (s_wtype s). rewrite Ek.
+      change (started (failed_rec x s)) with (started s). rewrite Est. repeat split.
 Qed.
 
-Theorem parse_nil : parse [] = None.
-Proof. reflexivity. Qed.
-
-Lemma encode_not_nil s : encode s <> [].
-Proof. discriminate. Qed.
-
-(* a cut text is not a record either (computed on a record with every kind of field) *)
-Example parse_cut :
-  let e := encode (mkStatus 2 150 [101; 109; 105; 116] (XRemote [98] [101] [85; 49] true)) in
-  forallb (fun k => match parse (firstn k e) with None => true | Some _ => false end)
-          (seq 0 (length e)) = true.
-Proof. vm_compute. reflexivity. Qed.
-
-(* ====================================================================================== *)
-(* C. the full statement does not hold of the code as it is                                *)
-(* ====================================================================================== *)
-
-Definition emit_t : bytes := [101; 109; 105; 116].
-
-(* a local command that writes 3 and 2 bytes and succeeds *)
-Definition witness_sc : scenario :=
-  mkSc 7 emit_t None false [] [105; 10] [[1; 2; 3]; [4; 5]] true 4242 [emit_t].
-
-(* the unit has FINISHED (Succeeded, 5 bytes); the daemon is killed between the truncation and
-   the rewrite of the record in which it clears the runner's PID *)
-Definition witness_cp : crashpoint := mkCp (repeat true 9 ++ repeat false 7) false 5 0.
-
-Theorem C04_refuted_thm :
-  wf_scenario witness_sc = true /\ cp_runner witness_cp = false /\
-  in_window witness_sc witness_cp = true /\
-  let o := experiment witness_sc witness_cp in
-  o_acked o = true /\
-  o_before o = Some (mkStatus S_SUCCEEDED 5 emit_t (XCmd 4242)) /\
-  v_listed (o_restart o) = true /\ v_known (o_restart o) = false /\
-  v_status (o_restart o) = mkStatus S_FAILED 5 [] XNone /\
-  v_status (o_again o) = mkStatus S_FAILED 5 [] XNone /\
-  holds witness_sc witness_cp = false.
-Proof. vm_compute. repeat split; reflexivity. Qed.
-
-Theorem C04_full_statement_refuted : ~ C04_full_statement.
+(* an emptied record (the truncate->write window): the first restart writes a record — without
+   the work type — and from then on the unit has an intact record *)
+Lemma recover_emptied types x : uf_dir x = true -> uf_status x = Some [] ->
+  has_record (fst (recover types x)).
 Proof.
-  intro H.
-  assert (W : wf_scenario witness_sc = true) by (vm_compute; reflexivity).
-  assert (R : cp_runner witness_cp = false) by reflexivity.
-  specialize (H witness_sc witness_cp W R). clear W R.
-  assert (E : holds witness_sc witness_cp = false) by (vm_compute; reflexivity).
-  rewrite E in H. clear E. discriminate H.
+  intros Hd Hs. unfold recover. rewrite Hd. cbn [negb].
+  fold (locked x). assert (Hl : uf_status (locked x) = Some []) by exact Hs.
+  unfold status_content. rewrite Hl. cbn [parse].
+  set (k := kind_of types []).
+  assert (Hload : forall m, exec_steps (mkP (locked x) m false) load_op = mkP (locked x) m true).
+  { intro m. unfold load_op, exec_steps. cbn [fold_left]. rewrite exec_op.
+    fold (locked (locked x)). rewrite locked_idem. now destruct (exec_load_empty (locked x) m Hl). }
+  rewrite Hload. cbn [p_err p_fs p_mem].
+  (* UpdateBasicStatus on the empty file: the in-memory record is written *)
+  assert (Hmf : forall m, mark_failed (mkP (locked x) m true) =
+                          mkP (with_status x (encode (failed_rec x m))) (failed_rec x m) false).
+  { intro m. unfold mark_failed, upd_op, exec_steps. cbn [fold_left p_fs p_mem].
+    rewrite !exec_op. fold (locked (locked x)). rewrite locked_idem.
+    assert (E2 : uapply (locked x) (UOpenCreate FStatus) = locked x)
+      by (unfold uapply; cbn [uget]; now rewrite Hl).
+    rewrite E2. destruct (exec_load_empty (locked x) m Hl) as [E _]. rewrite E.
+    rewrite exec_apply, exec_op, exec_store.
+    f_equal. unfold uapply at 2. cbn [uget]. rewrite Hl. cbn [uset].
+    unfold uapply. cbn [uget uset uf_dir uf_status uf_lock uf_stdin uf_stdout].
+    now rewrite write_at_nil. }
+  rewrite Hmf. cbn [p_fs p_mem p_err].
+  assert (Hrec : forall r, has_record (with_status x (encode r)))
+    by (intro r; split; [exact Hd|now exists r]).
+  destruct k.
+  - cbn [fst]. apply Hrec.
+  - (* Restart of a command unit: Load again, now a finished (Failed) record *)
+    rewrite (load_op_full (with_status x (encode (failed_rec x (worker_init KCmd [])))) _ (failed_rec x (worker_init KCmd [])) eq_refl).
+    cbn [p_err p_fs p_mem]. change (st_complete (s_state (failed_rec x (worker_init KCmd [])))) with true.
+    cbn [fst]. split; [exact Hd|]. eexists. reflexivity.
+  - change (started (failed_rec x (worker_init KRemote []))) with false. cbv iota.
+    rewrite (mark_failed_intact (with_status x (encode (failed_rec x (worker_init KRemote [])))) _ (failed_rec x (worker_init KRemote [])) eq_refl).
+    cbn [p_fs fst]. split; [exact Hd|]. eexists. reflexivity.
 Qed.
 
-(* the same window while the unit has never been started: the work type is lost as well *)
-Definition witness_cp_pending : crashpoint := mkCp (repeat true 5) false 5 0.
+Lemma cycles_record types x k : has_record x -> has_record (cycles types x k).
+Proof.
+  intro H. induction k as [|k IH]; [exact H|]. simpl. now apply recover_stable.
+Qed.
 
-Theorem C04_refuted_pending_thm :
-  in_window witness_sc witness_cp_pending = true /\
-  let o := experiment witness_sc witness_cp_pending in
-  o_acked o = true /\ s_wtype (v_status (o_restart o)) = [] /\ v_known (o_restart o) = false /\
-  holds witness_sc witness_cp_pending = false.
-Proof. vm_compute. repeat split; reflexivity. Qed.
+Lemma same_answer_trans a b c : same_answer a b -> same_answer b c -> same_answer a c.
+Proof. intros [A1 [A2 A3]] [B1 [B2 B3]]. repeat split; congruence. Qed.
 
-(* a remote unit bound to node "b", started there: the binding is lost *)
-Definition witness_remote : scenario :=
-  mkSc 9 remote_name (Some ([98], emit_t)) true [85; 49] [105] [[]; [1; 2; 3]] true 0 [].
-Definition witness_cp_remote : crashpoint := mkCp (repeat true 9 ++ [false]) false 5 0.
+(* crash_recovery_idempotent: after the first restart, any number of further kill/restart
+   cycles answers the same — for a unit with an intact record and for one whose record was
+   emptied in the window (whose first restart already is the loss) *)
+Theorem crash_recovery_idempotent_thm : forall types x k,
+  uf_dir x = true -> (exists s, uf_status x = Some (encode s)) \/ uf_status x = Some [] ->
+  same_answer (snd (recover types (cycles types x (S k)))) (snd (recover types (cycles types x 1))).
+Proof.
+  intros types x k Hd Hx.
+  assert (H1 : has_record (cycles types x 1)).
+  { simpl. destruct Hx as [Hs|He].
+    - apply recover_stable. now split.
+    - now apply recover_emptied. }
+  induction k as [|k IH]; [repeat split|].
+  eapply same_answer_trans; [|exact IH].
+  change (cycles types x (S (S k))) with (fst (recover types (cycles types x (S k)))).
+  apply recover_stable.
+  change (cycles types x (S k)) with (cycles types (cycles types x 1) k) || idtac.
+  clear IH. induction k as [|k IHk]; [exact H1|].
+  change (cycles types x (S (S k))) with (fst (recover types (cycles types x (S k)))).
+  now apply recover_stable.
+Qed.
 
-Theorem C04_refuted_remote_thm :
-  wf_scenario witness_remote = true /\ in_window witness_remote witness_cp_remote = true /\
-  let o := experiment witness_remote witness_cp_remote in
-  o_acked o = true /\
-  o_before o = Some (mkStatus S_PENDING 0 remote_name (XRemote [98] emit_t [85; 49] true)) /\
-  v_status (o_restart o) = mkStatus S_FAILED 0 [] XNone /\
-  holds witness_remote witness_cp_remote = false.
-Proof. vm_compute. repeat split; reflexivity. Qed.
-
-(* the runner is killed (anywhere, here between two of its rewrites): nobody completes the unit *)
-Definition witness_cp_runner : crashpoint := mkCp (repeat true 9 ++ repeat false 4) true 0 1.
-
-Theorem runner_killed_never_completes_thm :
-  let o := experiment witness_sc witness_cp_runner in
-  o_acked o = true /\ in_window witness_sc witness_cp_runner = false /\
-  s_wtype (v_status (o_restart o)) = emit_t /\
-  s_state (v_status (o_final o)) = S_RUNNING /\
-  s_state (v_status (o_again o)) = S_RUNNING /\
-  stdout_content (o_final_fs o) = [1; 2; 3].
-Proof. vm_compute. repeat split; reflexivity. Qed.
